@@ -1,12 +1,16 @@
 (* Struct layer: the member loop of deserialize reads back what the member loop of serialize wrote, and size agrees with the
-   number of bytes, for member lists made of the ordinary member kinds:
-     plain / reserved integers, count and byte-size members, named alias/enum/struct members, byte arrays and counted typed arrays.
-   Generic in the codecs of named types (hypothesis sub_rt) so that it can be applied level by level. *)
+   number of bytes, for member lists made of the member kinds of `mkind` below.
+   Generic in the codecs of named types (hypotheses sub_rt / sub_pos) so that it can be applied level by level. *)
 From Symv Require Import Base.Bytes Base.PyOps Base.BytesLemmas Cats.Layout Cats.LayoutProofs Cats.ArrayProofs Cats.LayoutLaws.
 From Coq Require Import Lia ZifyBool.
 Open Scope string_scope.
 Open Scope list_scope.
 Open Scope Z_scope.
+
+Definition is_vstruct (v : value) : bool := match v with VStruct _ _ => true | _ => false end.
+Definition is_none {A} (o : option A) : bool := match o with None => true | Some _ => false end.
+Lemma is_none_eq {A} (o : option A) : is_none o = true -> o = None.
+Proof. destruct o; [discriminate|reflexivity]. Qed.
 
 Section StructRT.
 Variable OP : ops.
@@ -19,10 +23,16 @@ Hypothesis size_bad_spec : forall x, size_bad OP x = (x <=? 0).
 Hypothesis order_same : forall p c, order_bad_r OP p c = order_bad_w OP p c.
 Hypothesis get_bytes_bad_spec : forall n len, get_bytes_bad OP n len = (len <? n).
 
+(* how a member / element of static type t is decoded: through the factory when t is abstract *)
+Definition is_abs (t : string) : bool :=
+  match lookup_struct tm t with Some ts => match s_disp ts with SdAbstract => true | _ => false end | None => false end.
+Definition dec_any (t : string) (buf : bytes) : result value := if is_abs t then decf_t R t buf else dec_t R t buf.
+
 (* admissible values of named types, and the round trip of their codecs one level down *)
 Variable adm_t : string -> value -> Prop.
 Hypothesis sub_rt : forall t v b rest, adm_t t v -> enc_t R t v = Ok b ->
-  dec_t R t (b ++ rest) = Ok v /\ size_t R t v = Ok (Z.of_nat (length b)) /\ (0 < length b)%nat.
+  dec_any t (b ++ rest) = Ok v /\ size_t R t v = Ok (Z.of_nat (length b)) /\ (0 < length b)%nat.
+Hypothesis sub_pos : forall t v sz, adm_t t v -> size_t R t v = Ok sz -> 0 < sz.
 
 (* a member that is not the @size member of the struct whose method runs *)
 Definition not_size_member (f : field) : Prop :=
@@ -34,21 +44,64 @@ Notation load := (load_field OP tm R s allfs).
 Notation des_field := (deserialize_field OP tm R s allfs).
 Notation des_loop := (deserialize_loop OP tm R s allfs).
 
-Definition not_abstract (t : string) : bool :=
-  match lookup_struct tm t with Some ts => match s_disp ts with SdAbstract => false | _ => true end | None => true end.
-
-(* ---- static classification of the ordinary member kinds ---- *)
+(* ---- static classification of the member kinds ---- *)
 Inductive mkind :=
 | MkInt (i : intty)                       (* plain settable integer *)
 | MkReserved (i : intty) (n : Z)
 | MkCount (i : intty) (g : field)         (* count / byte length of the array member g *)
+| MkCountCond (i : intty) (g : field) (y : Z)   (* byte length of the conditional byte array g; y when g is absent *)
 | MkNamed (t : string)
 | MkBytes (n : string)                    (* byte array sized by member n *)
-| MkArray (a : array) (n : string).       (* counted typed array sized by member n *)
+| MkArray (a : array) (n : string)        (* counted typed array sized by member n *)
+| MkSizeof (i : intty) (gn : string) (t : string)          (* sizeof(gn), gn a named member of type t *)
+| MkNamedSized (t : string) (sfn : string)                 (* named member decoded from its first <sfn> bytes *)
+| MkComputed (i : intty) (gn : string) (t : string) (d : Z)  (* @sizeref(gn, d): size of member gn + d, 0 when gn is absent *)
+| MkCondNamed (t : string) (cfn : string)                  (* named member present iff the computed member cfn is not 0 *)
+| MkCondBytes (n : string) (y : Z).                        (* byte array sized by n, present iff n <> y *)
+
+(* an unconditional computed (@sizeref) integer member measuring a named member *)
+Definition computed_info (cf : field) : option (intty * string * string * Z) :=
+  match f_cond cf, f_type cf with
+  | None, FInt i =>
+    match it_sizeref i with
+    | Some (gn, Some d) =>
+      match find_field allfs gn with
+      | Some pf =>
+        match f_type pf with
+        | FName t =>
+          if (0 <=? d) && (0 <=? it_size i) && negb (is_reserved cf) && negb (is_sizeof cf) && is_none (bound_field allfs cf)
+          then Some (i, gn, t, d) else None
+        | _ => None
+        end
+      | None => None
+      end
+    | _ => None
+    end
+  | _, _ => None
+  end.
+
+Definition cond_ne (c : conditional) : option Z :=      (* `<n> not equals <link>` *)
+  match c_value c with CvNum y => if String.eqb (c_op c) "not equals" then Some y else None | _ => None end.
 
 Definition classify (f : field) : option mkind :=
-  match f_cond f, is_sizeof f, is_computed f with
-  | None, false, false =>
+  match f_cond f with
+  | None =>
+    if is_sizeof f then
+      match f_type f, f_value f with
+      | FInt i, VName gn =>
+        match find_field allfs gn with
+        | Some g =>
+          match f_type g with
+          | FName t => if (0 <=? it_size i) && negb (is_reserved f) then Some (MkSizeof i gn t) else None
+          | _ => None
+          end
+        | None => None
+        end
+      | _, _ => None
+      end
+    else if is_computed f then
+      match computed_info f with Some (i, gn, t, d) => Some (MkComputed i gn t d) | None => None end
+    else
     match f_type f with
     | FInt i =>
       if it_size i <? 0 then None else
@@ -56,15 +109,24 @@ Definition classify (f : field) : option mkind :=
       else match bound_field allfs f with
            | None => Some (MkInt i)
            | Some g =>
-             match f_array g, f_cond g with
-             | Some ga, None =>
-               if (ends_with_count (f_name f) || negb (a_byte_constrained ga)) && it_unsigned i then Some (MkCount i g) else None
-             | _, _ => None
+             match f_array g with
+             | Some ga =>
+               if (ends_with_count (f_name f) || negb (a_byte_constrained ga)) && it_unsigned i then
+                 match f_cond g with
+                 | None => Some (MkCount i g)
+                 | Some gc => match c_value gc with CvNum y => if is_byte_array ga then Some (MkCountCond i g y) else None | _ => None end
+                 end
+               else None
+             | None => None
              end
            end
     | FName t =>
-      if negb (is_reserved f) && not_abstract t then
-        match bound_field allfs f, size_fields_of allfs f with None, [] => Some (MkNamed t) | _, _ => None end
+      if negb (is_reserved f) && is_none (bound_field allfs f) then
+        match size_fields_of allfs f with
+        | [] => Some (MkNamed t)
+        | [sf] => Some (MkNamedSized t (f_name sf))
+        | _ => None
+        end
       else None
     | FArray a =>
       match bound_field allfs f, a_size a with
@@ -74,44 +136,225 @@ Definition classify (f : field) : option mkind :=
       | _, _ => None
       end
     end
-  | _, _, _ => None
+  | Some c =>
+    match f_type f with
+    | FName t =>
+      match find_field allfs (c_link c), cond_ne c with
+      | Some cf, Some 0 =>
+        match computed_info cf with
+        | Some (_, gn, t', _) =>
+          if String.eqb gn (f_name f) && String.eqb t' t && negb (is_reserved f) && is_none (bound_field allfs f)
+             && match size_fields_of allfs f with [] => true | _ => false end
+          then Some (MkCondNamed t (c_link c)) else None
+        | None => None
+        end
+      | _, _ => None
+      end
+    | FArray a =>
+      match find_field allfs (c_link c), cond_ne c, a_size a with
+      | Some cf, Some y, SzName n =>
+        match f_type cf with
+        | FInt _ => if is_byte_array a && String.eqb n (c_link c) && is_none (bound_field allfs f) then Some (MkCondBytes n y) else None
+        | _ => None
+        end
+      | _, _, _ => None
+      end
+    | FInt _ => None
+    end
   end.
 
+(* ---- what the classification means (the only place where `classify` is unfolded) ---- *)
+Definition computed_facts (cf : field) (i : intty) (gn t : string) (d : Z) : Prop :=
+  f_cond cf = None /\ f_type cf = FInt i /\ f_sizeref cf = Some (gn, Some d) /\
+  (exists pf, find_field allfs gn = Some pf /\ f_type pf = FName t) /\
+  0 <= d /\ 0 <= it_size i /\ is_reserved cf = false /\ bound_field allfs cf = None.
+
+Lemma computed_info_facts cf i gn t d : computed_info cf = Some (i, gn, t, d) -> computed_facts cf i gn t d.
+Proof.
+  unfold computed_info, computed_facts, f_sizeref. destruct (f_cond cf); [discriminate|].
+  destruct (f_type cf) as [j| |]; try discriminate. destruct (it_sizeref j) as [[g [dd|]]|] eqn:Hsr; try discriminate.
+  destruct (find_field allfs g) as [pf|] eqn:Hpf; [|discriminate]. destruct (f_type pf) as [|t'|] eqn:Hpt; try discriminate.
+  destruct (_ && _) eqn:Hc; [|discriminate]. intros H; injection H as -> -> -> ->.
+  repeat (apply Bool.andb_true_iff in Hc as [Hc ?]).
+  repeat split; try reflexivity; try lia; try (now apply Bool.negb_true_iff); try (now apply is_none_eq).
+  exists pf. split; [exact Hpf | exact Hpt].
+Qed.
+
+Definition kind_facts (f : field) (k : mkind) : Prop :=
+  match k with
+  | MkInt i => f_cond f = None /\ f_type f = FInt i /\ 0 <= it_size i /\ is_reserved f = false /\ is_computed f = false /\ bound_field allfs f = None
+  | MkReserved i n => f_cond f = None /\ f_type f = FInt i /\ 0 <= it_size i /\ is_reserved f = true /\ is_computed f = false /\
+                      bound_field allfs f = None /\ f_value f = VNum n
+  | MkCount i g => f_cond f = None /\ f_type f = FInt i /\ 0 <= it_size i /\ is_reserved f = false /\ bound_field allfs f = Some g /\
+                   (exists ga, f_array g = Some ga /\ (ends_with_count (f_name f) || negb (a_byte_constrained ga)) = true) /\ f_cond g = None
+  | MkCountCond i g y => f_cond f = None /\ f_type f = FInt i /\ 0 <= it_size i /\ is_reserved f = false /\ bound_field allfs f = Some g /\
+                   (exists ga, f_array g = Some ga /\ (ends_with_count (f_name f) || negb (a_byte_constrained ga)) = true) /\
+                   (exists gc, f_cond g = Some gc /\ c_value gc = CvNum y)
+  | MkNamed t => f_cond f = None /\ f_type f = FName t /\ is_reserved f = false /\ bound_field allfs f = None /\ size_fields_of allfs f = []
+  | MkNamedSized t sfn => f_cond f = None /\ f_type f = FName t /\ is_reserved f = false /\ bound_field allfs f = None /\
+                          exists sf, size_fields_of allfs f = [sf] /\ f_name sf = sfn
+  | MkBytes n => f_cond f = None /\ bound_field allfs f = None /\ exists a, f_type f = FArray a /\ a_size a = SzName n /\ is_byte_array a = true
+  | MkArray a n => f_cond f = None /\ bound_field allfs f = None /\ f_type f = FArray a /\ a_size a = SzName n /\ is_byte_array a = false /\
+                   is_variable_size tm a = false /\ a_byte_constrained a = false /\ alignment_of a = 0
+  | MkSizeof i gn t => f_cond f = None /\ f_type f = FInt i /\ 0 <= it_size i /\ is_reserved f = false /\ is_sizeof f = true /\
+                       exists g, bound_field allfs f = Some g /\ f_name g = gn /\ f_type g = FName t
+  | MkComputed i gn t d => is_computed f = true /\ computed_facts f i gn t d
+  | MkCondNamed t cfn => f_type f = FName t /\ is_reserved f = false /\ bound_field allfs f = None /\ size_fields_of allfs f = [] /\
+                         exists c cf i d, f_cond f = Some c /\ c_link c = cfn /\ c_value c = CvNum 0 /\ c_op c = "not equals" /\
+                                          find_field allfs cfn = Some cf /\ computed_facts cf i (f_name f) t d
+  | MkCondBytes n y => bound_field allfs f = None /\
+                       exists c cf a j, f_cond f = Some c /\ c_link c = n /\ c_value c = CvNum y /\ c_op c = "not equals" /\
+                                      find_field allfs n = Some cf /\ f_type cf = FInt j /\
+                                      f_type f = FArray a /\ a_size a = SzName n /\ is_byte_array a = true
+  end.
+
+Lemma find_field_name fs n g : find_field fs n = Some g -> f_name g = n.
+Proof. unfold find_field. intros H. apply find_some in H as [_ H]. now apply String.eqb_eq in H. Qed.
+
+Lemma cond_ne_facts c y : cond_ne c = Some y -> c_value c = CvNum y /\ c_op c = "not equals".
+Proof.
+  unfold cond_ne. destruct (c_value c); [|discriminate]. destruct (String.eqb_spec (c_op c) "not equals"); [|discriminate].
+  intros H; injection H as ->. now split.
+Qed.
+
+Lemma classify_facts f k : classify f = Some k -> kind_facts f k.
+Proof.
+  unfold classify. destruct (f_cond f) as [c|] eqn:Hcond.
+  - (* conditional members *)
+    destruct (f_type f) as [j|t|a] eqn:Hft; [discriminate| |].
+    + destruct (find_field allfs (c_link c)) as [cf|] eqn:Hcf; [|discriminate].
+      destruct (cond_ne c) as [[| |]|] eqn:Hne; try discriminate.
+      destruct (computed_info cf) as [[[[i gn] t'] d]|] eqn:Hci; [|discriminate].
+      destruct (_ && _) eqn:Hc; [|discriminate]. intros H; injection H as <-.
+      repeat (apply Bool.andb_true_iff in Hc as [Hc ?]).
+      apply String.eqb_eq in Hc. match goal with Ht : String.eqb t' t = true |- _ => apply String.eqb_eq in Ht end. subst gn t'.
+      destruct (cond_ne_facts c 0 Hne) as [Hv Hop].
+      cbn [kind_facts]. repeat split; try assumption; try reflexivity; try (now apply Bool.negb_true_iff); try (now apply is_none_eq).
+      * destruct (size_fields_of allfs f); [reflexivity|discriminate].
+      * exists c, cf, i, d. repeat split; try assumption; try reflexivity. all: now apply computed_info_facts in Hci; destruct Hci as (?&?&?&?&?&?&?&?).
+    + destruct (find_field allfs (c_link c)) as [cf|] eqn:Hcf; [|discriminate].
+      destruct (cond_ne c) as [y|] eqn:Hne; [|discriminate]. destruct (a_size a) as [|n|] eqn:Has; try discriminate.
+      destruct (f_type cf) as [j| |] eqn:Hcft; try discriminate.
+      destruct (_ && _) eqn:Hc; [|discriminate]. intros H; injection H as <-.
+      repeat (apply Bool.andb_true_iff in Hc as [Hc ?]).
+      match goal with Ht : String.eqb n (c_link c) = true |- _ => apply String.eqb_eq in Ht; rename Ht into Hn end.
+      destruct (cond_ne_facts c y Hne) as [Hv Hop].
+      cbn [kind_facts]. split; [now apply is_none_eq|]. exists c, cf, a, j. rewrite Hn. repeat split; try assumption; try reflexivity.
+      now rewrite Hn in Has.
+  - destruct (is_sizeof f) eqn:Hso.
+    { destruct (f_type f) as [i| |] eqn:Hft; try discriminate. destruct (f_value f) as [| |gn|] eqn:Hfv; try discriminate.
+      destruct (find_field allfs gn) as [g|] eqn:Hg; [|discriminate]. destruct (f_type g) as [|t|] eqn:Hgt; try discriminate.
+      destruct (_ && _) eqn:Hc; [|discriminate]. intros H; injection H as <-.
+      apply Bool.andb_true_iff in Hc as [Hc Hr]. apply Bool.negb_true_iff in Hr.
+      cbn [kind_facts]. repeat split; try assumption; try reflexivity; try lia.
+      exists g. repeat split; [|now apply find_field_name in Hg|exact Hgt].
+      unfold bound_field, sizeof_target. now rewrite Hso, Hfv, Hg. }
+    destruct (is_computed f) eqn:Hcomp.
+    { destruct (computed_info f) as [[[[i gn] t] d]|] eqn:Hci; [|discriminate]. intros H; injection H as <-.
+      cbn [kind_facts]. split; [assumption | now apply computed_info_facts]. }
+    destruct (f_type f) as [i|t|a] eqn:Hft.
+    + destruct (it_size i <? 0) eqn:Hw0; [discriminate|]. destruct (is_reserved f) eqn:Hres.
+      * destruct (f_value f) as [|n| |] eqn:Hfv; try discriminate. destruct (bound_field allfs f) eqn:Hb; [discriminate|].
+        intros H; injection H as <-. cbn [kind_facts]. repeat split; try assumption; try reflexivity; lia.
+      * destruct (bound_field allfs f) as [g|] eqn:Hb.
+        -- destruct (f_array g) as [ga|] eqn:Hga; [|discriminate].
+           destruct (_ && _) eqn:Hc; [|discriminate]. apply Bool.andb_true_iff in Hc as [Hc Hu].
+           destruct (f_cond g) as [gc|] eqn:Hgc.
+           ++ destruct (c_value gc) as [y|] eqn:Hgv; [|discriminate]. destruct (is_byte_array ga); [|discriminate].
+              intros H; injection H as <-. cbn [kind_facts]. repeat split; try assumption; try reflexivity; try lia.
+              ** exists ga. now split.
+              ** exists gc. now split.
+           ++ intros H; injection H as <-. cbn [kind_facts]. repeat split; try assumption; try reflexivity; try lia. exists ga. now split.
+        -- intros H; injection H as <-. cbn [kind_facts]. repeat split; try assumption; try reflexivity; lia.
+    + destruct (_ && _) eqn:Hc; [|discriminate]. apply Bool.andb_true_iff in Hc as [Hr Hb]. apply Bool.negb_true_iff in Hr. apply is_none_eq in Hb.
+      destruct (size_fields_of allfs f) as [|sf [|]] eqn:Hsf; try discriminate; intros H; injection H as <-; cbn [kind_facts]; repeat split; try assumption; try reflexivity.
+      exists sf. now split.
+    + destruct (bound_field allfs f) eqn:Hb; [discriminate|]. destruct (a_size a) as [|n|] eqn:Has; try discriminate.
+      destruct (is_byte_array a) eqn:Hba.
+      * intros H; injection H as <-. cbn [kind_facts]. repeat split; try assumption; try reflexivity. exists a. now repeat split.
+      * destruct (_ && _) eqn:Hc; [|discriminate]. intros H; injection H as <-.
+        apply Bool.andb_true_iff in Hc as [Hc Hal]. apply Bool.andb_true_iff in Hc as [Hvs Hbc]. apply Bool.negb_true_iff in Hvs, Hbc.
+        cbn [kind_facts]. repeat split; try assumption; try reflexivity. lia.
+Qed.
+
+Lemma classify_cond f k : classify f = Some k -> match k with MkCondNamed _ _ | MkCondBytes _ _ => True | _ => f_cond f = None end.
+Proof.
+  intros H. apply classify_facts in H. destruct k; cbn [kind_facts] in H; try exact I; try tauto.
+  destruct H as (_ & H). unfold computed_facts in H. tauto.
+Qed.
+
 (* ---- what a value must look like at a member (typing; ranges are implied by successful encoding) ---- *)
+Definition opt_struct_of (t : string) (v : value) : Prop := v = VNull \/ (is_vstruct v = true /\ adm_t t v).
+
 Definition member_typed (self : value) (f : field) : Prop :=
   match classify f with
   | Some (MkInt _) => exists z, vget self (f_name f) = Some (VInt z)
   | Some (MkReserved _ _) => True
   | Some (MkCount _ g) =>
     (exists b, vget self (f_name g) = Some (VBytes b)) \/ (exists l, vget self (f_name g) = Some (VArr l))
-  | Some (MkNamed t) => exists v, vget self (f_name f) = Some v /\ v <> VNull /\ adm_t t v
+  | Some (MkCountCond _ g _) =>
+    vget self (f_name g) = Some VNull \/ (exists b, vget self (f_name g) = Some (VBytes b))
+  | Some (MkNamed t) | Some (MkNamedSized t _) => exists v, vget self (f_name f) = Some v /\ v <> VNull /\ adm_t t v
   | Some (MkBytes _) => exists b, vget self (f_name f) = Some (VBytes b)
   | Some (MkArray a _) =>
     exists l, vget self (f_name f) = Some (VArr l) /\ (length l <= array_fuel)%nat /\
-              match elem_name a with Some et => Forall (adm_t et) l /\ contents_abstract tm a = false | None => False end
+              match elem_name a with Some et => Forall (adm_t et) l | None => False end
+  | Some (MkSizeof _ gn t) => exists v, vget self gn = Some v /\ v <> VNull /\ adm_t t v
+  | Some (MkComputed _ gn t _) => exists v, vget self gn = Some v /\ opt_struct_of t v
+  | Some (MkCondNamed t _) => exists v, vget self (f_name f) = Some v /\ opt_struct_of t v
+  | Some (MkCondBytes _ y) =>
+    vget self (f_name f) = Some VNull \/ (exists b, vget self (f_name f) = Some (VBytes b) /\ Z.of_nat (length b) <> y)
   | None => False
   end.
 
 (* what the decoder has in its environment for a member already read *)
 Definition env_entry (self : value) (f : field) : option value :=
   match classify f with
-  | Some (MkInt _) | Some (MkNamed _) | Some (MkBytes _) | Some (MkArray _ _) => vget self (f_name f)
+  | Some (MkInt _) | Some (MkNamed _) | Some (MkBytes _) | Some (MkArray _ _)
+  | Some (MkNamedSized _ _) | Some (MkCondNamed _ _) | Some (MkCondBytes _ _) => vget self (f_name f)
   | Some (MkCount _ g) =>
     match vget self (f_name g) with
     | Some (VBytes b) => Some (VInt (Z.of_nat (length b)))
     | Some (VArr l) => Some (VInt (Z.of_nat (length l)))
     | _ => None
     end
+  | Some (MkCountCond _ g y) =>
+    match vget self (f_name g) with
+    | Some VNull => Some (VInt y)
+    | Some (VBytes b) => Some (VInt (Z.of_nat (length b)))
+    | _ => None
+    end
   | Some (MkReserved _ n) => Some (VInt n)
+  | Some (MkSizeof _ gn t) =>
+    match vget self gn with
+    | Some v => match size_t R t v with Ok z => Some (VInt z) | _ => None end
+    | None => None
+    end
+  | Some (MkComputed _ gn t d) =>
+    match vget self gn with
+    | Some VNull => Some (VInt 0)
+    | Some v => match size_t R t v with Ok z => Some (VInt (z + d)) | _ => None end
+    | None => None
+    end
   | None => None
   end.
 
 Definition env_ok (seen : list field) (e : env) (self : value) : Prop :=
   forall f, In f seen -> eget e (f_name f) = env_entry self f.
 
-(* the size member of an array has been read before the array, and binds exactly that array *)
+(* members that must have been read before a member: seen = all members read so far (the environment),
+   proc = names of the members processed by the running loop (what the generator's `processed` holds) *)
 Definition size_member_seen (seen : list field) (f : field) (n : string) : Prop :=
   exists c i, In c seen /\ f_name c = n /\ classify c = Some (MkCount i f).
+
+Definition deps_ok (seen : list field) (proc : list string) (f : field) : Prop :=
+  match classify f with
+  | Some (MkArray _ n) | Some (MkBytes n) => size_member_seen seen f n
+  | Some (MkCondBytes n y) => (exists c i, In c seen /\ f_name c = n /\ classify c = Some (MkCountCond i f y)) /\ In n proc
+  | Some (MkNamedSized t sfn) => exists c i, In c seen /\ f_name c = sfn /\ classify c = Some (MkSizeof i (f_name f) t)
+  | Some (MkCondNamed t cfn) => (exists c i d, In c seen /\ f_name c = cfn /\ classify c = Some (MkComputed i (f_name f) t d)) /\ In cfn proc
+  | _ => True
+  end.
 
 Lemma eget_cons_eq e n v : eget ((n, v) :: e) n = Some v.
 Proof. unfold eget. cbn [find fst]. now rewrite String.eqb_refl. Qed.
@@ -125,198 +368,523 @@ Proof. intros <-. rewrite skipn_app, skipn_all, Nat.sub_diag. reflexivity. Qed.
 Lemma cond_local_none e f : f_cond f = None -> cond_local tm allfs e f = Ok true.
 Proof. unfold cond_local. now intros ->. Qed.
 
-Lemma classify_cond f k : classify f = Some k -> f_cond f = None.
-Proof. unfold classify. destruct (f_cond f); [discriminate|reflexivity]. Qed.
+Lemma zfirstn_all (l : bytes) : zfirstn (Z.of_nat (length l)) l = l.
+Proof. unfold zfirstn. now rewrite Z.leb_refl. Qed.
 
-(* ---- one member: what serialize_field wrote, load_field reads back, leaving exactly the rest ---- *)
-Lemma member_step (seen : list field) e self total f bf rest :
-  not_size_member f ->
-  env_ok seen e self -> member_typed self f ->
-  (forall a n, classify f = Some (MkArray a n) -> size_member_seen seen f n) ->
-  (forall n, classify f = Some (MkBytes n) -> size_member_seen seen f n) ->
-  ser_field total self false f = Ok bf ->
-  exists v, load e f (bf ++ rest) = Ok (v, rest) /\ Some v = env_entry self f.
+(* ---- integer-valued members: whatever value z serialize wrote, the decoder reads z ---- *)
+Lemma int_step e f i z bf rest :
+  f_type f = FInt i -> f_cond f = None -> not_size_member f ->
+  (is_reserved f = false \/ f_value f = VNum z) ->
+  py_to_bytes (Z.to_nat (it_size i)) (negb (it_unsigned i)) z = Ok bf ->
+  des_field e f (bf ++ rest) = Ok ((f_name f, VInt z) :: e, rest).
 Proof.
-  intros no_size_attr Henv Hty Harr Hbytes Hser. unfold member_typed, env_entry in *.
-  destruct (classify f) as [k|] eqn:Hk; [|contradiction].
-  pose proof (classify_cond f k Hk) as Hcond.
-  unfold classify in Hk. rewrite Hcond in Hk.
-  destruct (is_sizeof f) eqn:Hsz; [discriminate|]. destruct (is_computed f) eqn:Hcomp; [discriminate|].
-  unfold serialize_field in Hser. cbn [andb] in Hser. rewrite (cond_self_none tm R allfs self f Hcond) in Hser. cbn [bind negb] in Hser.
-  unfold load_field. unfold not_size_member in no_size_attr. rewrite no_size_attr.
-  destruct (f_type f) as [i|t|a] eqn:Hft.
-  - (* integers *)
-    destruct (it_size i <? 0) eqn:Hw0; [discriminate|].
-    destruct (is_reserved f) eqn:Hres.
-    + destruct (f_value f) as [|n| |] eqn:Hfv; try discriminate. destruct (bound_field allfs f) eqn:Hb; [discriminate|].
-      injection Hk as <-. rewrite ?Hcomp in Hser.
-      destruct (py_int_roundtrip _ _ _ _ rest Hser) as [Hx Hlen]. rewrite Hx, Z.eqb_refl.
-      eexists; split; [|reflexivity]. rewrite skipn_app_exact by exact Hlen. reflexivity.
-    + destruct (bound_field allfs f) as [g|] eqn:Hb.
-      * destruct (f_array g) as [ga|] eqn:Hga; [|discriminate]. destruct (f_cond g) eqn:Hgc; [discriminate|].
-        destruct ((ends_with_count (f_name f) || negb (a_byte_constrained ga)) && it_unsigned i) eqn:Hc; [|discriminate].
-        injection Hk as <-. apply Bool.andb_true_iff in Hc as [Hc Hu]. rewrite ?Hc in Hser.
-        unfold member_value in Hser.
-        destruct Hty as [[b Hv]|[l Hv]]; rewrite Hv in Hser |- *; cbn [bind] in Hser; try rewrite Hgc in Hser;
-          destruct (py_int_roundtrip _ _ _ _ rest Hser) as [Hx Hlen]; rewrite Hx;
-          (eexists; split; [|reflexivity]); rewrite skipn_app_exact by exact Hlen; reflexivity.
-      * injection Hk as <-. rewrite ?Hcomp, ?Hres in Hser. destruct Hty as [z Hv]. unfold member_value in Hser. rewrite Hv in Hser |- *. cbn [bind] in Hser.
-        destruct (py_int_roundtrip _ _ _ _ rest Hser) as [Hx Hlen]. rewrite Hx.
-        eexists; split; [|reflexivity]. rewrite skipn_app_exact by exact Hlen. reflexivity.
-  - (* named members *)
-    destruct (negb (is_reserved f) && not_abstract t) eqn:Hn; [|discriminate].
-    destruct (bound_field allfs f) eqn:Hb; [discriminate|]. destruct (size_fields_of allfs f) eqn:Hsf; [|discriminate].
-    injection Hk as <-. apply Bool.andb_true_iff in Hn as [Hres Hna]. apply Bool.negb_true_iff in Hres. rewrite ?Hres in Hser.
-    destruct Hty as (v & Hv & Hnn & Hadm). unfold member_value in Hser. rewrite Hv in Hser |- *. cbn [bind] in Hser.
-    assert (Hser' : enc_t R t v = Ok bf) by (destruct v; try exact Hser; contradiction).
-    destruct (sub_rt t v bf rest Hadm Hser') as (Hd & Hs & _).
-    unfold not_abstract in Hna.
-    replace (match lookup_struct tm t with Some ts => match s_disp ts with SdAbstract => true | _ => false end | None => false end) with false
-      by (destruct (lookup_struct tm t) as [ts|]; [destruct (s_disp ts); try reflexivity; discriminate | reflexivity]).
-    rewrite Hd. cbn [bind]. rewrite Hs. cbn [bind]. rewrite zskipn_app. eexists; split; reflexivity.
-  - (* arrays *)
-    destruct (bound_field allfs f) eqn:Hb; [discriminate|]. destruct (a_size a) as [|n|] eqn:Has; try discriminate.
-    destruct (is_byte_array a) eqn:Hba.
-    + injection Hk as <-. destruct Hty as [b Hv]. unfold member_value in Hser. rewrite Hv in Hser |- *. cbn [bind] in Hser.
-      rewrite ?Hba in Hser. injection Hser as <-.
-      destruct (Hbytes n eq_refl) as (c & ci & Hin & Hcn & Hck).
-      pose proof (Henv c Hin) as Hec. unfold env_entry in Hec. rewrite Hck, Hv in Hec. rewrite Hcn in Hec.
-      unfold size_local. rewrite Hec. cbn [bind]. unfold get_bytes. rewrite get_bytes_bad_spec, app_length.
-      replace (Z.of_nat (length b + length rest) <? Z.of_nat (length b)) with false by lia.
-      cbn [bind]. rewrite zfirstn_app, zskipn_app. eexists; split; reflexivity.
-    + destruct (negb (is_variable_size tm a) && negb (a_byte_constrained a) && (alignment_of a =? 0)) eqn:Hplain; [|discriminate].
-      injection Hk as <-. apply Bool.andb_true_iff in Hplain as [Hp Hal]. apply Bool.andb_true_iff in Hp as [Hvs Hbc].
-      apply Bool.negb_true_iff in Hvs, Hbc.
-      destruct Hty as (l & Hv & Hfuel & Hel). unfold member_value in Hser. rewrite Hv in Hser |- *. cbn [bind] in Hser.
-      rewrite ?Hba, ?Hvs in Hser. unfold write_array in Hser.
-      destruct (elem_name a) as [et|] eqn:Het; [|contradiction]. destruct Hel as [Hall Hnabs].
-      destruct (Harr a n eq_refl) as (c & ci & Hin & Hcn & Hck).
-      pose proof (Henv c Hin) as Hec. unfold env_entry in Hec. rewrite Hck, Hv in Hec. rewrite Hcn in Hec.
-      unfold size_local. rewrite Hec. cbn [bind]. rewrite Hvs, Hbc, Hal. cbn [negb].
-      assert (Hrt : forall e' be rest', adm_t et e' -> elem_enc R a e' = Ok be ->
-                elem_dec tm R a (be ++ rest') = Ok e' /\ elem_size R a e' = Ok (Z.of_nat (length be)) /\ (0 < length be)%nat).
-      { intros e' be rest' Ha He. unfold elem_enc, elem_dec, elem_size in *. rewrite Het in *. rewrite Hnabs. now apply sub_rt. }
-      pose proof (write_read_count OP tm R a (adm_t et) size_bad_spec order_same Hrt l (length l) None None bf rest 0
-                    array_fuel Hall eq_refl Hfuel (or_intror eq_refl)) as Hread.
-      pose proof (write_size OP tm R a (adm_t et) Hrt l None bf Hall) as Hsize.
-      destruct (a_sort_key a) eqn:Hsk.
-      * specialize (Hread Hser). specialize (Hsize Hser). cbn [Z.add] in Hread. rewrite Hread. cbn [bind]. rewrite Hsize. cbn [bind].
-        rewrite zskipn_app. eexists; split; reflexivity.
-      * (* no sort key: the writer is called with the same record (a_sort_key = None) *)
-        cbv iota in Hser.
-        specialize (Hsize Hser).
-        (* reader without accessor: reuse the count lemma with use_accessor = true is not applicable; prove directly via the keyed lemma on a *)
-        assert (Hread' : read_array_go OP tm R a false array_fuel (StopCount (Z.of_nat (length l))) 0 None (bf ++ rest) = Ok l).
-        {
-          assert (G : forall l0 pw b rest0 i0 fuel, Forall (adm_t et) l0 -> (length l0 <= fuel)%nat ->
-                    write_array_go OP tm R a pw l0 (length l0) = Ok b ->
-                    read_array_go OP tm R a false fuel (StopCount (i0 + Z.of_nat (length l0))) i0 None (b ++ rest0) = Ok l0).
-          { clear Hser Hall Hfuel. induction l0 as [|x l0 IH]; intros pw b rest0 i0 fuel Hadm Hf Hw.
-            - cbn in Hw. injection Hw as <-. destruct fuel; cbn [read_array_go length]; replace (i0 <? i0 + Z.of_nat 0) with false by lia; reflexivity.
-            - cbn [length write_array_go] in Hw. inversion Hadm as [|? ? Hx Hl]; subst.
-              rewrite (elem_key_none tm R a x Hsk) in Hw. cbn [bind] in Hw.
-              replace (match pw with Some _ => false | None => false end) with false in Hw by (destruct pw; reflexivity).
-              destruct (elem_enc R a x) as [be| |] eqn:Hbe; cbn [bind] in Hw; try discriminate.
-              destruct (write_array_go OP tm R a None l0 (length l0)) as [br| |] eqn:Hbr; cbn [bind] in Hw; try discriminate.
-              injection Hw as <-. destruct (Hrt x be (br ++ rest0) Hx Hbe) as (Hd & Hs & Hpos).
-              destruct fuel as [|fuel]; [cbn [length] in Hf; lia|].
-              cbn [read_array_go length]. replace (i0 <? i0 + Z.of_nat (S (length l0))) with true by lia. cbn [negb].
-              rewrite <- app_assoc, Hd. cbn [bind]. rewrite Hs. cbn [bind]. rewrite size_bad_spec.
-              replace (Z.of_nat (length be) <=? 0) with false by lia. cbn [bind]. rewrite zskipn_app.
-              replace (i0 + Z.of_nat (S (length l0))) with ((i0 + 1) + Z.of_nat (length l0)) by lia.
-              rewrite (IH None br rest0 (i0 + 1) fuel Hl ltac:(cbn [length] in Hf; lia) Hbr). reflexivity. }
-          exact (G l None bf rest 0 array_fuel Hall Hfuel Hser). }
-        rewrite Hread'. cbn [bind]. rewrite Hsize. cbn [bind]. rewrite zskipn_app. eexists; split; reflexivity.
+  intros Hft Hcond Hns Hres Hser. unfold deserialize_field. rewrite (cond_local_none e f Hcond). cbn [bind].
+  unfold load_field. unfold not_size_member in Hns. rewrite Hft, Hns.
+  destruct (py_int_roundtrip _ _ _ _ rest Hser) as [Hx Hlen]. rewrite Hx, (skipn_app_exact bf rest _ Hlen).
+  destruct (is_reserved f).
+  - destruct Hres as [Hres|Hres]; [discriminate|]. rewrite Hres, Z.eqb_refl. reflexivity.
+  - reflexivity.
 Qed.
 
+Lemma int_size self f i bf z sg : f_type f = FInt i -> f_cond f = None -> 0 <= it_size i ->
+  py_to_bytes (Z.to_nat (it_size i)) sg z = Ok bf ->
+  bind (cond_self tm R allfs self f) (fun c => if c then member_size OP tm R self f else Ok 0) = Ok (Z.of_nat (length bf)).
+Proof.
+  intros Hft Hcond Hw Hser. rewrite (cond_self_none tm R allfs self f Hcond). cbn [bind]. unfold member_size. rewrite Hft.
+  rewrite (proj2 (py_int_roundtrip _ _ _ _ [] Hser)). f_equal. lia.
+Qed.
+
+(* what serialize writes for the integer-valued kinds *)
+Definition int_written (self : value) (k : mkind) : result Z :=
+  match k with
+  | MkInt _ | MkNamed _ | MkBytes _ | MkArray _ _ | MkNamedSized _ _ | MkCondNamed _ _ | MkCondBytes _ _ => unsupported
+  | MkReserved _ n => Ok n
+  | MkCount _ g =>
+    match vget self (f_name g) with
+    | Some (VBytes b) => Ok (Z.of_nat (length b))
+    | Some (VArr l) => Ok (Z.of_nat (length l))
+    | _ => unsupported
+    end
+  | MkCountCond _ g y =>
+    match vget self (f_name g) with
+    | Some VNull => Ok y
+    | Some (VBytes b) => Ok (Z.of_nat (length b))
+    | _ => unsupported
+    end
+  | MkSizeof _ gn t => match vget self gn with Some v => size_t R t v | None => unsupported end
+  | MkComputed _ gn t d =>
+    match vget self gn with
+    | Some VNull => Ok 0
+    | Some v => bind (size_t R t v) (fun z => Ok (z + d))
+    | None => unsupported
+    end
+  end.
+
+Definition int_of_kind (k : mkind) : option intty :=
+  match k with MkInt i | MkReserved i _ | MkCount i _ | MkCountCond i _ _ | MkSizeof i _ _ | MkComputed i _ _ _ => Some i | _ => None end.
+
+Lemma computed_value_eq self cf i gn t d v : computed_facts cf i gn t d -> vget self gn = Some v -> opt_struct_of t v ->
+  computed_value R allfs self cf = match v with VNull => Ok 0 | _ => bind (size_t R t v) (fun z => Ok (z + d)) end.
+Proof.
+  intros (_ & _ & Hsr & (pf & Hpf & Hpt) & _) Hv Hos. unfold computed_value. rewrite Hsr, Hpf, Hv.
+  destruct Hos as [->|[Hvs _]]; [reflexivity|]. destruct v; try discriminate. cbn [truthy negb]. now rewrite Hpt.
+Qed.
+
+Lemma int_kind_ser self total f k i : classify f = Some k -> int_of_kind k = Some i -> k <> MkInt i -> member_typed self f ->
+  f_type f = FInt i /\ f_cond f = None /\ 0 <= it_size i /\ (is_reserved f = false \/ exists z, int_written self k = Ok z /\ f_value f = VNum z) /\
+  ser_field total self false f = bind (int_written self k) (py_to_bytes (Z.to_nat (it_size i)) (negb (it_unsigned i))).
+Proof.
+  intros Hk Hi Hni Hty. pose proof (classify_facts f k Hk) as F. unfold member_typed in Hty. rewrite Hk in Hty.
+  unfold serialize_field. cbn [andb].
+  destruct k; cbn [int_of_kind] in Hi; try discriminate; injection Hi as ->; cbn [kind_facts] in F; cbn [int_written].
+  - contradiction.
+  - destruct F as (Hc & Hft & Hw & Hres & Hcomp & Hb & Hv). rewrite (cond_self_none tm R allfs self f Hc). cbn [bind negb]. rewrite Hb, Hft, Hcomp, Hres, Hv.
+    repeat split; try assumption; try reflexivity. right. exists n. now split.
+  - destruct F as (Hc & Hft & Hw & Hres & Hb & (ga & Hga & Hcnt) & Hgc). rewrite (cond_self_none tm R allfs self f Hc). cbn [bind negb].
+    rewrite Hb, Hft, Hga, Hcnt. unfold member_value.
+    repeat split; try assumption; [now left|].
+    destruct Hty as [[b Hv]|[l Hv]]; rewrite Hv; cbn [bind]; try rewrite Hgc; reflexivity.
+  - destruct F as (Hc & Hft & Hw & Hres & Hb & (ga & Hga & Hcnt) & (gc & Hgc & Hgv)). rewrite (cond_self_none tm R allfs self f Hc). cbn [bind negb].
+    rewrite Hb, Hft, Hga, Hcnt. unfold member_value.
+    repeat split; try assumption; [now left|].
+    destruct Hty as [Hv|[b Hv]]; rewrite Hv; cbn [bind]; rewrite ?Hgc, ?Hgv; reflexivity.
+  - destruct F as (Hc & Hft & Hw & Hres & Hso & (g & Hb & Hgn & Hgt)). rewrite (cond_self_none tm R allfs self f Hc). cbn [bind negb].
+    rewrite Hb, Hft, Hso. unfold f_array. rewrite Hgt. unfold member_size, member_value. rewrite Hgt, Hgn.
+    repeat split; try assumption; [now left|].
+    destruct Hty as (v & Hv & Hnn & _). rewrite Hv. cbn [bind]. destruct v; try reflexivity. contradiction.
+  - destruct F as (Hcomp & F). pose proof F as (Hc & Hft & Hsr & Hpf & Hd & Hw & Hres & Hb).
+    rewrite (cond_self_none tm R allfs self f Hc). cbn [bind negb]. rewrite Hb, Hft, Hcomp.
+    repeat split; try assumption; [now left|].
+    destruct Hty as (v & Hv & Hos). rewrite (computed_value_eq self f i gn t d v F Hv Hos), Hv. destruct v; reflexivity.
+Qed.
+
+Lemma int_written_entry self f k i z : classify f = Some k -> int_of_kind k = Some i -> k <> MkInt i ->
+  int_written self k = Ok z -> env_entry self f = Some (VInt z).
+Proof.
+  intros Hk Hi Hni Hw. unfold env_entry. rewrite Hk.
+  destruct k; cbn [int_of_kind] in Hi; try discriminate; injection Hi as ->; cbn [int_written] in Hw.
+  - congruence.
+  - destruct (vget self (f_name g)) as [[| | | |]|]; try discriminate; now injection Hw as ->.
+  - destruct (vget self (f_name g)) as [[| | | |]|]; try discriminate; now injection Hw as ->.
+  - destruct (vget self gn) as [v|]; [|discriminate]. now rewrite Hw.
+  - destruct (vget self gn) as [v|]; [|discriminate].
+    destruct v; try (now injection Hw as <-); destruct (size_t R t _) as [sz| |]; cbn [bind] in Hw; try discriminate; now injection Hw as <-.
+Qed.
+
+(* ---- conditions ---- *)
+Lemma cond_named_self self f t cfn v : classify f = Some (MkCondNamed t cfn) -> vget self (f_name f) = Some v -> opt_struct_of t v ->
+  cond_self tm R allfs self f = match v with VNull => Ok false | _ => bind (size_t R t v) (fun _ => Ok true) end.
+Proof.
+  intros Hk Hv Hos. pose proof (classify_facts f _ Hk) as F. cbn [kind_facts] in F.
+  destruct F as (Hft & Hres & Hb & Hsf & c & cf & i & d & Hc & Hl & Hcv & Hop & Hcf & F).
+  pose proof F as (Hcc & Hcft & Hsr & _ & Hd & _).
+  unfold cond_self. rewrite Hc, Hft, Hl, Hcf. unfold cond_kind. rewrite Hcft. unfold cond_yoda. rewrite Hcv.
+  unfold cond_operand_self, is_computed. rewrite Hsr. rewrite (computed_value_eq self cf i (f_name f) t d v F Hv Hos).
+  unfold cond_eval. rewrite Hop. cbn [String.eqb Ascii.eqb Bool.eqb].
+  destruct Hos as [->|[Hvs Hadm]]; [reflexivity|]. destruct v; try discriminate.
+  destruct (size_t R t (VStruct cls fs)) as [sz| |] eqn:Hsz; cbn [bind]; try reflexivity.
+  pose proof (sub_pos _ _ _ Hadm Hsz). do 2 f_equal. lia.
+Qed.
+
+Lemma cond_named_local seen proc e self f t cfn v : classify f = Some (MkCondNamed t cfn) -> env_ok seen e self -> deps_ok seen proc f ->
+  vget self (f_name f) = Some v -> opt_struct_of t v -> (v = VNull \/ exists sz, size_t R t v = Ok sz) ->
+  cond_local tm allfs e f = Ok (match v with VNull => false | _ => true end).
+Proof.
+  intros Hk Henv Hdeps Hv Hos Hsz. pose proof (classify_facts f _ Hk) as F. cbn [kind_facts] in F.
+  destruct F as (Hft & Hres & Hb & Hsf & c & cf & i & d & Hc & Hl & Hcv & Hop & Hcf & (Hcc & Hcft & _)).
+  unfold deps_ok in Hdeps. rewrite Hk in Hdeps. destruct Hdeps as [(c' & i' & d' & Hin & Hn & Hk') _].
+  pose proof (Henv c' Hin) as He. unfold env_entry in He. rewrite Hk', Hv, Hn in He.
+  pose proof (classify_facts c' _ Hk') as F'. cbn [kind_facts] in F'. destruct F' as (_ & _ & _ & _ & _ & Hd' & _).
+  unfold cond_local. rewrite Hc, Hl, Hcf. unfold cond_kind. rewrite Hcft. unfold cond_yoda. rewrite Hcv.
+  unfold cond_eval. rewrite Hop. cbn [String.eqb Ascii.eqb Bool.eqb].
+  destruct Hos as [->|[Hvs Hadm]]; [now rewrite He|]. destruct v; try discriminate.
+  destruct Hsz as [Hsz|[sz Hsz]]; [discriminate|]. rewrite Hsz in He. rewrite He.
+  pose proof (sub_pos _ _ _ Hadm Hsz). do 2 f_equal. lia.
+Qed.
+
+Lemma cond_bytes_local seen proc e self f n y : classify f = Some (MkCondBytes n y) -> env_ok seen e self -> deps_ok seen proc f ->
+  member_typed self f ->
+  cond_local tm allfs e f = Ok (match vget self (f_name f) with Some VNull => false | _ => true end) /\
+  (forall b, vget self (f_name f) = Some (VBytes b) -> eget e n = Some (VInt (Z.of_nat (length b)))).
+Proof.
+  intros Hk Henv Hdeps Hty. pose proof (classify_facts f _ Hk) as F. cbn [kind_facts] in F.
+  destruct F as (Hb & c & cf & a & j & Hc & Hl & Hcv & Hop & Hcf & Hcft & Hft & Has & Hba).
+  unfold deps_ok in Hdeps. rewrite Hk in Hdeps. destruct Hdeps as [(c' & i' & Hin & Hn & Hk') _].
+  pose proof (Henv c' Hin) as He. unfold env_entry in He. rewrite Hk', Hn in He.
+  unfold member_typed in Hty. rewrite Hk in Hty.
+  unfold cond_local. rewrite Hc, Hl, Hcf. unfold cond_kind. rewrite Hcft. unfold cond_yoda. rewrite Hcv.
+  unfold cond_eval. rewrite Hop. cbn [String.eqb Ascii.eqb Bool.eqb].
+  destruct Hty as [Hv|(b & Hv & Hne)]; rewrite Hv in He |- *; rewrite He.
+  - split; [now rewrite Z.eqb_refl | intros b Hb'; discriminate].
+  - split; [do 2 f_equal; lia | intros b' Hb'; now injection Hb' as <-].
+Qed.
+
+(* ---- what a successful serialisation of a typed member looks like ---- *)
+Inductive ser_shape (self : value) (f : field) (bf : bytes) : Prop :=
+| SsInt i z : f_type f = FInt i -> f_cond f = None -> 0 <= it_size i -> (is_reserved f = false \/ f_value f = VNum z) ->
+    py_to_bytes (Z.to_nat (it_size i)) (negb (it_unsigned i)) z = Ok bf -> env_entry self f = Some (VInt z) -> ser_shape self f bf
+| SsNamed t v : f_type f = FName t -> cond_self tm R allfs self f = Ok true -> vget self (f_name f) = Some v -> v <> VNull -> adm_t t v ->
+    enc_t R t v = Ok bf -> env_entry self f = Some v ->
+    (classify f = Some (MkNamed t) \/ (exists sfn, classify f = Some (MkNamedSized t sfn)) \/ (exists cfn, classify f = Some (MkCondNamed t cfn))) ->
+    ser_shape self f bf
+| SsAbsent : cond_self tm R allfs self f = Ok false -> bf = [] -> vget self (f_name f) = Some VNull -> env_entry self f = Some VNull ->
+    ((exists t cfn, classify f = Some (MkCondNamed t cfn)) \/ (exists n y, classify f = Some (MkCondBytes n y))) -> ser_shape self f bf
+| SsBytes a n : f_type f = FArray a -> is_byte_array a = true -> a_size a = SzName n -> vget self (f_name f) = Some (VBytes bf) ->
+    env_entry self f = Some (VBytes bf) -> cond_self tm R allfs self f = Ok (match bf with [] => false | _ => true end) \/ cond_self tm R allfs self f = Ok true ->
+    (classify f = Some (MkBytes n) \/ exists y, classify f = Some (MkCondBytes n y)) -> ser_shape self f bf
+| SsArray a n l et : classify f = Some (MkArray a n) -> f_type f = FArray a -> f_cond f = None -> vget self (f_name f) = Some (VArr l) -> (length l <= array_fuel)%nat ->
+    elem_name a = Some et -> Forall (adm_t et) l ->
+    write_array_go OP tm R a None l (length l) = Ok bf ->
+    env_entry self f = Some (VArr l) -> ser_shape self f bf.
+
+Lemma member_ser_inv self total f bf : member_typed self f -> ser_field total self false f = Ok bf -> ser_shape self f bf.
+Proof.
+  intros Hty Hser. pose proof Hty as Hty'. unfold member_typed in Hty.
+  destruct (classify f) as [k|] eqn:Hk; [|contradiction].
+  destruct (int_of_kind k) as [i|] eqn:Hi.
+  { (* integer-valued kinds *)
+    destruct k; cbn [int_of_kind] in Hi; try discriminate; injection Hi as ->.
+    1:{ pose proof (classify_facts f _ Hk) as F. cbn [kind_facts] in F. destruct F as (Hc & Hft & Hw & Hres & Hcomp & Hb).
+        unfold serialize_field in Hser. cbn [andb] in Hser. rewrite (cond_self_none tm R allfs self f Hc) in Hser. cbn [bind negb] in Hser.
+        rewrite Hb, Hft, Hcomp, Hres in Hser. destruct Hty as [z Hv]. unfold member_value in Hser. rewrite Hv in Hser. cbn [bind] in Hser.
+        apply (SsInt self f bf i z); try assumption; [now left|]. unfold env_entry. now rewrite Hk. }
+    all: match type of Hk with _ = Some ?K =>
+           destruct (int_kind_ser self total f K i Hk eq_refl ltac:(discriminate) Hty') as (Hft & Hc & Hw & Hres & Hs);
+           rewrite Hs in Hser; destruct (int_written self K) as [z| |] eqn:Hz; cbn [bind] in Hser; try discriminate;
+           apply (SsInt self f bf i z); try assumption;
+           [destruct Hres as [Hres|(z' & Hz' & Hv')]; [now left | right; congruence]
+           | exact (int_written_entry self f K i z Hk eq_refl ltac:(discriminate) Hz)]
+         end. }
+  pose proof (classify_facts f _ Hk) as F. unfold serialize_field in Hser. cbn [andb] in Hser.
+  destruct k; cbn [int_of_kind] in Hi; try discriminate; cbn [kind_facts] in F.
+  - (* MkNamed *)
+    destruct F as (Hc & Hft & Hres & Hb & Hsf). destruct Hty as (v & Hv & Hnn & Hadm).
+    pose proof (cond_self_none tm R allfs self f Hc) as Hcs.
+    assert (Hs : ser_field total self false f = enc_t R t v) by (eapply conditional_present; eassumption).
+    unfold serialize_field in Hs. cbn [andb] in Hs. rewrite Hs in Hser.
+    apply (SsNamed self f bf t v); try assumption; [unfold env_entry; now rewrite Hk | now left].
+  - (* MkBytes *)
+    destruct F as (Hc & Hb & a & Hft & Has & Hba). destruct Hty as [b Hv].
+    rewrite (cond_self_none tm R allfs self f Hc) in Hser. cbn [bind negb] in Hser. rewrite Hb, Hft in Hser. unfold member_value in Hser. rewrite Hv in Hser.
+    cbn [bind] in Hser. rewrite Hba in Hser. injection Hser as <-.
+    apply (SsBytes self f b a n); try assumption; [unfold env_entry; now rewrite Hk | right; now apply cond_self_none | now left].
+  - (* MkArray *)
+    destruct F as (Hc & Hb & Hft & Has & Hba & Hvs & Hbc & Hal). destruct Hty as (l & Hv & Hfuel & Hel).
+    rewrite (cond_self_none tm R allfs self f Hc) in Hser. cbn [bind negb] in Hser. rewrite Hb, Hft in Hser. unfold member_value in Hser. rewrite Hv in Hser.
+    cbn [bind] in Hser. rewrite Hba, Hvs, Has in Hser. unfold write_array in Hser.
+    destruct (elem_name a) as [et|] eqn:Het; [|contradiction].
+    apply (SsArray self f bf a n l et); try assumption. unfold env_entry; now rewrite Hk.
+  - (* MkNamedSized *)
+    destruct F as (Hc & Hft & Hres & Hb & sf & Hsf & Hsfn). destruct Hty as (v & Hv & Hnn & Hadm).
+    pose proof (cond_self_none tm R allfs self f Hc) as Hcs.
+    assert (Hs : ser_field total self false f = enc_t R t v) by (eapply conditional_present; eassumption).
+    unfold serialize_field in Hs. cbn [andb] in Hs. rewrite Hs in Hser.
+    apply (SsNamed self f bf t v); try assumption; [unfold env_entry; now rewrite Hk | right; left; now exists sfn].
+  - (* MkCondNamed *)
+    destruct Hty as (v & Hv & Hos). pose proof (cond_named_self self f t cfn v Hk Hv Hos) as Hcs.
+    destruct F as (Hft & Hres & Hb & Hsf & _).
+    destruct Hos as [->|[Hvs Hadm]].
+    + rewrite Hcs in Hser. cbn [bind negb] in Hser. injection Hser as <-.
+      apply SsAbsent; try assumption; try reflexivity; [unfold env_entry; now rewrite Hk | left; now exists t, cfn].
+    + assert (Hnn : v <> VNull) by (intros ->; discriminate).
+      assert (Hcs' : cond_self tm R allfs self f = Ok true).
+      { rewrite Hcs in Hser |- *. destruct v; try discriminate. destruct (size_t R t (VStruct cls fs)); cbn [bind] in Hser |- *; [reflexivity|discriminate|discriminate]. }
+      assert (Hs : ser_field total self false f = enc_t R t v) by (eapply conditional_present; eassumption).
+      unfold serialize_field in Hs. cbn [andb] in Hs. rewrite Hs in Hser.
+      apply (SsNamed self f bf t v); try assumption; [unfold env_entry; now rewrite Hk | right; right; now exists cfn].
+  - (* MkCondBytes *)
+    destruct F as (Hb & c & cf & a & j & Hc & Hl & Hcv & Hop & Hcf & Hcft & Hft & Has & Hba).
+    assert (Hcs : cond_self tm R allfs self f = match vget self (f_name f) with Some v => Ok (truthy v) | None => Crash "AttributeError" end)
+      by (unfold cond_self; now rewrite Hc, Hft).
+    destruct Hty as [Hv|(b & Hv & Hne)]; rewrite Hv in Hcs; cbn [truthy] in Hcs.
+    + rewrite Hcs in Hser. cbn [bind negb] in Hser. injection Hser as <-.
+      apply SsAbsent; try assumption; try reflexivity; [unfold env_entry; now rewrite Hk | right; now exists n, y].
+    + assert (bf = b).
+      { rewrite Hcs in Hser. cbn [bind] in Hser. destruct b as [|x b]; cbn [negb] in Hser; [now injection Hser as <-|].
+        rewrite Hb, Hft in Hser. unfold member_value in Hser. rewrite Hv in Hser. cbn [bind] in Hser. rewrite Hba in Hser. now injection Hser as <-. }
+      subst bf. apply (SsBytes self f b a n); try assumption; [unfold env_entry; now rewrite Hk | left | right; now exists y].
+      rewrite Hcs. now destruct b.
+Qed.
+
+(* ---- decoding of the member shapes ---- *)
+Lemma named_load e f t v bf rest rest' : f_type f = FName t -> adm_t t v -> enc_t R t v = Ok bf ->
+  match size_fields_of allfs f with
+  | [sf] => match eget e (f_name sf) with Some (VInt n) => Some (zfirstn n (bf ++ rest)) | _ => None end
+  | [] => Some (bf ++ rest)
+  | _ => None
+  end = Some (bf ++ rest') ->
+  load e f (bf ++ rest) = Ok (v, rest).
+Proof.
+  intros Hft Hadm Henc Hl. unfold load_field. rewrite Hft. cbv beta iota zeta.
+  destruct (sub_rt t v bf rest' Hadm Henc) as (Hd & Hs & _). unfold dec_any, is_abs in Hd.
+  destruct (size_fields_of allfs f) as [|sf [|? ?]]; [| |discriminate].
+  - injection Hl as Hl. apply app_inv_head in Hl. subst rest'. rewrite Hd. cbn [bind]. rewrite Hs. cbn [bind]. now rewrite zskipn_app.
+  - destruct (eget e (f_name sf)) as [[n| | | |]|]; try discriminate. injection Hl as Hl. rewrite Hl, Hd. cbn [bind]. rewrite Hs. cbn [bind]. now rewrite zskipn_app.
+Qed.
+
+Lemma bytes_load e f a n b rest : f_type f = FArray a -> is_byte_array a = true -> a_size a = SzName n ->
+  eget e n = Some (VInt (Z.of_nat (length b))) -> load e f (b ++ rest) = Ok (VBytes b, rest).
+Proof.
+  intros Hft Hba Has He. unfold load_field. rewrite Hft. cbv beta iota zeta. rewrite Hba, Has. unfold size_local. rewrite He. cbn [bind].
+  unfold get_bytes. rewrite get_bytes_bad_spec, app_length.
+  replace (Z.of_nat (length b + length rest) <? Z.of_nat (length b)) with false by lia.
+  cbn [bind]. now rewrite zfirstn_app, zskipn_app.
+Qed.
+
+Lemma elem_rt_of a et : elem_name a = Some et -> forall e' be rest', adm_t et e' -> elem_enc R a e' = Ok be ->
+  elem_dec tm R a (be ++ rest') = Ok e' /\ elem_size R a e' = Ok (Z.of_nat (length be)) /\ (0 < length be)%nat.
+Proof.
+  intros Het e' be rest' Ha He. unfold elem_enc, elem_dec, elem_size, contents_abstract in *. rewrite Het in *.
+  destruct (sub_rt et e' be rest' Ha He) as (Hd & Hs & Hp). unfold dec_any, is_abs in Hd. repeat split; assumption.
+Qed.
+
+Lemma read_count_nokey a et : elem_name a = Some et -> a_sort_key a = None ->
+  forall l0 pw b rest0 i0 fuel, Forall (adm_t et) l0 -> (length l0 <= fuel)%nat ->
+    write_array_go OP tm R a pw l0 (length l0) = Ok b ->
+    read_array_go OP tm R a false fuel (StopCount (i0 + Z.of_nat (length l0))) i0 None (b ++ rest0) = Ok l0.
+Proof.
+  intros Het Hsk. pose proof (elem_rt_of a et Het) as Hrt.
+  induction l0 as [|x l0 IH]; intros pw b rest0 i0 fuel Hadm Hf Hw.
+  - cbn in Hw. injection Hw as <-. destruct fuel; cbn [read_array_go length]; replace (i0 <? i0 + Z.of_nat 0) with false by lia; reflexivity.
+  - cbn [length write_array_go] in Hw. inversion Hadm as [|? ? Hx Hl]; subst.
+    rewrite (elem_key_none tm R a x Hsk) in Hw. cbn [bind] in Hw.
+    replace (match pw with Some _ => false | None => false end) with false in Hw by (destruct pw; reflexivity).
+    destruct (elem_enc R a x) as [be| |] eqn:Hbe; cbn [bind] in Hw; try discriminate.
+    destruct (write_array_go OP tm R a None l0 (length l0)) as [br| |] eqn:Hbr; cbn [bind] in Hw; try discriminate.
+    injection Hw as <-. destruct (Hrt x be (br ++ rest0) Hx Hbe) as (Hd & Hs & Hpos).
+    destruct fuel as [|fuel]; [cbn [length] in Hf; lia|].
+    cbn [read_array_go length]. replace (i0 <? i0 + Z.of_nat (S (length l0))) with true by lia. cbn [negb].
+    rewrite <- app_assoc, Hd. cbn [bind]. rewrite Hs. cbn [bind]. rewrite size_bad_spec.
+    replace (Z.of_nat (length be) <=? 0) with false by lia. cbn [bind]. rewrite zskipn_app.
+    replace (i0 + Z.of_nat (S (length l0))) with ((i0 + 1) + Z.of_nat (length l0)) by lia.
+    rewrite (IH None br rest0 (i0 + 1) fuel Hl ltac:(cbn [length] in Hf; lia) Hbr). reflexivity.
+Qed.
+
+(* the decoder's view of the condition of a member: present unless the value is None *)
+Lemma cond_local_shape seen proc e self f bf : env_ok seen e self -> member_typed self f -> deps_ok seen proc f -> ser_shape self f bf ->
+  cond_local tm allfs e f = Ok (match vget self (f_name f) with Some VNull => false | _ => true end) \/
+  (f_cond f = None /\ cond_local tm allfs e f = Ok true).
+Proof.
+  intros Henv Hty Hdeps Hsh. destruct Hsh as [i z Hft Hc|t v Hft Hcs Hv Hnn Hadm Henc He Hk| Hcs Hbf Hv He Hk|a n Hft Hba Has Hv He Hcs Hk|a n l et Hk Hft Hc].
+  - right. split; [exact Hc | now apply cond_local_none].
+  - destruct Hk as [Hk|[(sfn & Hk)|(cfn & Hk)]].
+    + right. pose proof (classify_facts f _ Hk) as F. cbn [kind_facts] in F. destruct F as (Hc & _). split; [exact Hc | now apply cond_local_none].
+    + right. pose proof (classify_facts f _ Hk) as F. cbn [kind_facts] in F. destruct F as (Hc & _). split; [exact Hc | now apply cond_local_none].
+    + left. rewrite Hv. unfold member_typed in Hty. rewrite Hk, Hv in Hty. destruct Hty as (v' & Hv' & Hos). injection Hv' as <-.
+      rewrite (cond_named_local seen proc e self f t cfn v Hk Henv Hdeps Hv Hos); [reflexivity|].
+      right. destruct (sub_rt t v bf [] Hadm Henc) as (_ & Hs & _). eauto.
+  - left. destruct Hk as [(t & cfn & Hk)|(n & y & Hk)].
+    + unfold member_typed in Hty. rewrite Hk, Hv in Hty. destruct Hty as (v' & Hv' & Hos). injection Hv' as <-.
+      rewrite Hv. apply (cond_named_local seen proc e self f t cfn VNull Hk Henv Hdeps Hv Hos). now left.
+    + exact (proj1 (cond_bytes_local seen proc e self f n y Hk Henv Hdeps Hty)).
+  - destruct Hk as [Hk|(y & Hk)].
+    + right. pose proof (classify_facts f _ Hk) as F. cbn [kind_facts] in F. destruct F as (Hc & _). split; [exact Hc | now apply cond_local_none].
+    + left. exact (proj1 (cond_bytes_local seen proc e self f n y Hk Henv Hdeps Hty)).
+  - right. split; [exact Hc | now apply cond_local_none].
+Qed.
+
+(* ---- one member: what serialize_field wrote, deserialize_field reads back, leaving exactly the rest ---- *)
+Lemma member_step (seen : list field) proc e self total f bf rest :
+  not_size_member f ->
+  env_ok seen e self -> member_typed self f -> deps_ok seen proc f ->
+  ser_field total self false f = Ok bf ->
+  exists v, des_field e f (bf ++ rest) = Ok ((f_name f, v) :: e, rest) /\ Some v = env_entry self f.
+Proof.
+  intros Hns Henv Hty Hdeps Hser. pose proof (member_ser_inv self total f bf Hty Hser) as Hsh.
+  pose proof (cond_local_shape seen proc e self f bf Henv Hty Hdeps Hsh) as Hcl.
+  destruct Hsh as [i z Hft Hc Hw Hres Hpy He|t v Hft Hcs Hv Hnn Hadm Henc He Hk| Hcs Hbf Hv He Hk|a n Hft Hba Has Hv He Hcs Hk|a n l et Hk Hft Hc Hv Hfuel Het Hall Hwr He].
+  - exists (VInt z). split; [eapply int_step; eassumption | now rewrite He].
+  - exists v. split; [|now rewrite He]. unfold deserialize_field.
+    assert (Hcl' : cond_local tm allfs e f = Ok true) by (destruct Hcl as [Hcl|[_ Hcl]]; [rewrite Hcl, Hv; now destruct v | exact Hcl]).
+    rewrite Hcl'. cbn [bind].
+    assert (Hload : load e f (bf ++ rest) = Ok (v, rest)).
+    { destruct Hk as [Hk|[(sfn & Hk)|(cfn & Hk)]]; pose proof (classify_facts f _ Hk) as F; cbn [kind_facts] in F.
+      - destruct F as (_ & _ & _ & _ & Hsf). apply (named_load e f t v bf rest rest Hft Hadm Henc). now rewrite Hsf.
+      - destruct F as (_ & _ & _ & _ & sf & Hsf & Hsfn). apply (named_load e f t v bf rest [] Hft Hadm Henc). rewrite Hsf.
+        unfold deps_ok in Hdeps. rewrite Hk in Hdeps. destruct Hdeps as (c & ci & Hin & Hcn & Hck).
+        pose proof (Henv c Hin) as Hec. unfold env_entry in Hec. rewrite Hck, Hv in Hec.
+        destruct (sub_rt t v bf [] Hadm Henc) as (_ & Hs & _). rewrite Hs in Hec. rewrite Hsfn, <- Hcn, Hec.
+        now rewrite zfirstn_app, app_nil_r.
+      - destruct F as (_ & _ & _ & Hsf & _). apply (named_load e f t v bf rest rest Hft Hadm Henc). now rewrite Hsf. }
+    rewrite Hload. reflexivity.
+  - exists VNull. split; [|now rewrite He]. subst bf. unfold deserialize_field.
+    destruct Hcl as [Hcl|[Hc _]].
+    + rewrite Hcl, Hv. reflexivity.
+    + exfalso. destruct Hk as [(t & cfn & Hk)|(n & y & Hk)]; pose proof (classify_facts f _ Hk) as F; cbn [kind_facts] in F.
+      * destruct F as (_ & _ & _ & _ & c & ? & ? & ? & Hc' & _). congruence.
+      * destruct F as (_ & c & ? & ? & ? & Hc' & _). congruence.
+  - exists (VBytes bf). split; [|now rewrite He]. unfold deserialize_field.
+    assert (Hcl' : cond_local tm allfs e f = Ok true) by (destruct Hcl as [Hcl|[_ Hcl]]; [now rewrite Hcl, Hv | exact Hcl]).
+    rewrite Hcl'. cbn [bind].
+    assert (Hn : eget e n = Some (VInt (Z.of_nat (length bf)))).
+    { destruct Hk as [Hk|(y & Hk)].
+      - unfold deps_ok in Hdeps. rewrite Hk in Hdeps. destruct Hdeps as (c & ci & Hin & Hcn & Hck).
+        pose proof (Henv c Hin) as Hec. unfold env_entry in Hec. now rewrite Hck, Hv, Hcn in Hec.
+      - exact (proj2 (cond_bytes_local seen proc e self f n y Hk Henv Hdeps Hty) bf Hv). }
+    rewrite (bytes_load e f a n bf rest Hft Hba Has Hn). reflexivity.
+  - exists (VArr l). split; [|now rewrite He]. unfold deserialize_field. rewrite (cond_local_none e f Hc). cbn [bind].
+    pose proof (classify_facts f _ Hk) as F. cbn [kind_facts] in F. destruct F as (_ & Hb & _ & Has & Hba & Hvs & Hbc & Hal).
+    unfold deps_ok in Hdeps. rewrite Hk in Hdeps. destruct Hdeps as (c & ci & Hin & Hcn & Hck).
+    pose proof (Henv c Hin) as Hec. unfold env_entry in Hec. rewrite Hck, Hv, Hcn in Hec.
+    unfold load_field. rewrite Hft. cbv beta iota zeta. rewrite Hba, Has. unfold size_local. rewrite Hec. cbn [bind]. rewrite Hvs, Hbc, Hal. cbn [negb Z.eqb].
+    pose proof (elem_rt_of a et Het) as Hrt.
+    pose proof (write_size OP tm R a (adm_t et) Hrt l None bf Hall Hwr) as Hsize.
+    assert (Hread : read_array_go OP tm R a (match a_sort_key a with Some _ => true | None => false end) array_fuel (StopCount (Z.of_nat (length l))) 0 None (bf ++ rest) = Ok l).
+    { destruct (a_sort_key a) eqn:Hsk.
+      - exact (write_read_count OP tm R a (adm_t et) size_bad_spec order_same Hrt l (length l) None None bf rest 0
+                    array_fuel Hall eq_refl Hfuel (or_intror eq_refl) Hwr).
+      - exact (read_count_nokey a et Het Hsk l None bf rest 0 array_fuel Hall Hfuel Hwr). }
+    rewrite Hread. cbn [bind]. rewrite Hsize. cbn [bind]. now rewrite zskipn_app.
+Qed.
 
 (* ---- size: what the size property adds for a member is the number of bytes serialize_field writes for it ---- *)
 Lemma member_size_ok self total f bf :
   member_typed self f -> ser_field total self false f = Ok bf ->
   bind (cond_self tm R allfs self f) (fun c => if c then member_size OP tm R self f else Ok 0) = Ok (Z.of_nat (length bf)).
 Proof.
-  intros Hty Hser. unfold member_typed in Hty.
-  destruct (classify f) as [k|] eqn:Hk; [|contradiction].
-  pose proof (classify_cond f k Hk) as Hcond. rewrite (cond_self_none tm R allfs self f Hcond). cbn [bind].
-  unfold classify in Hk. rewrite Hcond in Hk.
-  destruct (is_sizeof f) eqn:Hsz; [discriminate|]. destruct (is_computed f) eqn:Hcomp; [discriminate|].
-  unfold serialize_field in Hser. cbn [andb] in Hser. rewrite (cond_self_none tm R allfs self f Hcond) in Hser. cbn [bind negb] in Hser.
-  unfold member_size.
-  destruct (f_type f) as [i|t|a] eqn:Hft.
-  - assert (Hw : forall w sg x, py_to_bytes w sg x = Ok bf -> length bf = w) by (intros w sg x H; exact (proj2 (py_int_roundtrip w sg x bf [] H))).
-    destruct (it_size i <? 0) eqn:Hw0; [discriminate|].
-    assert (Hsize : Z.of_nat (Z.to_nat (it_size i)) = it_size i) by lia.
-    destruct (is_reserved f) eqn:Hres.
-    + destruct (f_value f) as [|n| |] eqn:Hfv; try discriminate. destruct (bound_field allfs f) eqn:Hb; [discriminate|].
-      rewrite ?Hcomp in Hser. apply Hw in Hser. rewrite Hser. now f_equal.
-    + destruct (bound_field allfs f) as [g|] eqn:Hb.
-      * destruct (f_array g) as [ga|] eqn:Hga; [|discriminate]. destruct (f_cond g) eqn:Hgc; [discriminate|].
-        destruct ((ends_with_count (f_name f) || negb (a_byte_constrained ga)) && it_unsigned i) eqn:Hc; [|discriminate].
-        injection Hk as <-. apply Bool.andb_true_iff in Hc as [Hc Hu]. rewrite ?Hc in Hser. unfold member_value in Hser.
-        destruct Hty as [[b Hv]|[l Hv]]; rewrite Hv in Hser; cbn [bind] in Hser; try rewrite Hgc in Hser; apply Hw in Hser; rewrite Hser; now f_equal.
-      * injection Hk as <-. rewrite ?Hcomp, ?Hres in Hser. destruct Hty as [z Hv]. unfold member_value in Hser. rewrite Hv in Hser. cbn [bind] in Hser.
-        apply Hw in Hser. rewrite Hser. now f_equal.
-  - destruct (negb (is_reserved f) && not_abstract t) eqn:Hn; [|discriminate].
-    destruct (bound_field allfs f) eqn:Hb; [discriminate|]. destruct (size_fields_of allfs f) eqn:Hsf; [|discriminate].
-    injection Hk as <-. apply Bool.andb_true_iff in Hn as [Hres Hna]. apply Bool.negb_true_iff in Hres. rewrite ?Hres in Hser.
-    destruct Hty as (v & Hv & Hnn & Hadm). unfold member_value in Hser |- *. rewrite Hv in Hser |- *. cbn [bind] in Hser |- *.
-    assert (Hser' : enc_t R t v = Ok bf) by (destruct v; try exact Hser; contradiction).
-    destruct (sub_rt t v bf [] Hadm Hser') as (_ & Hs & _). destruct v; try exact Hs; contradiction.
-  - destruct (bound_field allfs f) eqn:Hb; [discriminate|]. destruct (a_size a) as [|n|] eqn:Has; try discriminate.
-    destruct (is_byte_array a) eqn:Hba.
-    + injection Hk as <-. destruct Hty as [b Hv]. unfold member_value in Hser |- *. rewrite Hv in Hser |- *. cbn [bind] in Hser |- *.
-      rewrite ?Hba in Hser. injection Hser as <-. reflexivity.
-    + destruct (negb (is_variable_size tm a) && negb (a_byte_constrained a) && (alignment_of a =? 0)) eqn:Hplain; [|discriminate].
-      injection Hk as <-. apply Bool.andb_true_iff in Hplain as [Hp Hal]. apply Bool.andb_true_iff in Hp as [Hvs Hbc]. apply Bool.negb_true_iff in Hvs, Hbc.
-      destruct Hty as (l & Hv & Hfuel & Hel). unfold member_value in Hser |- *. rewrite Hv in Hser |- *. cbn [bind] in Hser |- *.
-      rewrite ?Hba, ?Hvs in Hser. unfold write_array in Hser. rewrite Hvs.
-      destruct (elem_name a) as [et|] eqn:Het; [|contradiction]. destruct Hel as [Hall Hnabs].
-      assert (Hrt : forall e' be rest', adm_t et e' -> elem_enc R a e' = Ok be ->
-                elem_dec tm R a (be ++ rest') = Ok e' /\ elem_size R a e' = Ok (Z.of_nat (length be)) /\ (0 < length be)%nat).
-      { intros e' be rest' Ha He. unfold elem_enc, elem_dec, elem_size in *. rewrite Het in *. rewrite Hnabs. now apply sub_rt. }
-      destruct (a_sort_key a) eqn:Hsk; cbv iota in Hser; exact (write_size OP tm R a (adm_t et) Hrt l None bf Hall Hser).
+  intros Hty Hser. pose proof (member_ser_inv self total f bf Hty Hser) as Hsh.
+  destruct Hsh as [i z Hft Hc Hw Hres Hpy He|t v Hft Hcs Hv Hnn Hadm Henc He Hk| Hcs Hbf Hv He Hk|a n Hft Hba Has Hv He Hcs Hk|a n l et Hk Hft Hc Hv Hfuel Het Hall Hwr He].
+  - eapply int_size; eassumption.
+  - rewrite Hcs. cbn [bind]. unfold member_size, member_value. rewrite Hft, Hv. cbn [bind].
+    destruct (sub_rt t v bf [] Hadm Henc) as (_ & Hs & _). destruct v; try exact Hs. contradiction.
+  - rewrite Hcs, Hbf. reflexivity.
+  - assert (Hms : member_size OP tm R self f = Ok (Z.of_nat (length bf))).
+    { unfold member_size, member_value. rewrite Hft. cbv beta iota zeta. rewrite Hba, Has, Hv. reflexivity. }
+    destruct Hcs as [Hcs|Hcs]; rewrite Hcs; cbn [bind]; [destruct bf; [reflexivity|exact Hms] | exact Hms].
+  - rewrite (cond_self_none tm R allfs self f Hc). cbn [bind].
+    pose proof (classify_facts f _ Hk) as F. cbn [kind_facts] in F. destruct F as (_ & Hb & _ & Has & Hba & Hvs & Hbc & Hal).
+    unfold member_size, member_value. rewrite Hft. cbv beta iota zeta. rewrite Hba, Hv. cbn [bind]. rewrite Hvs.
+    exact (write_size OP tm R a (adm_t et) (elem_rt_of a et Het) l None bf Hall Hwr).
 Qed.
 
+(* sizes are never negative, and positive for the member kinds of certainly positive width *)
+Definition pos_member (f : field) : Prop :=
+  match classify f with
+  | Some (MkNamed _) | Some (MkNamedSized _ _) => True
+  | Some k => match int_of_kind k with Some i => 0 < it_size i | None => False end
+  | None => False
+  end.
+
+Lemma array_size_one (esize : value -> result Z) e al sk :
+  array_size_with OP esize [e] al sk = bind (esize e) (fun s => Ok (if (al =? 0) || sk then s else align_up OP s al)).
+Proof. reflexivity. Qed.
+
+Lemma array_size_cons (esize : value -> result Z) e l al sk : l <> [] ->
+  array_size_with OP esize (e :: l) al sk =
+  bind (esize e) (fun s => bind (array_size_with OP esize l al sk) (fun t => Ok ((if al =? 0 then s else align_up OP s al) + t))).
+Proof. destruct l; [contradiction|reflexivity]. Qed.
+
+Lemma array_size_nonneg (esize : value -> result Z) (P : value -> Prop) al sk :
+  (forall e z, P e -> esize e = Ok z -> 0 < z) ->
+  (al = 0 \/ (0 < al /\ forall s, 0 <= s -> s <= align_up OP s al)) ->
+  forall l z, Forall P l -> array_size_with OP esize l al sk = Ok z -> 0 <= z.
+Proof.
+  intros HP Hal. induction l as [|e l IH]; intros z Hall H.
+  - injection H as <-. lia.
+  - inversion Hall as [|? ? He Hl]; subst. destruct l as [|e2 l].
+    + rewrite array_size_one in H. destruct (esize e) as [sz| |] eqn:Hs; cbn [bind] in H; try discriminate. injection H as <-.
+      pose proof (HP e sz He Hs). destruct Hal as [->|[Hp Hal]]; [cbn [Z.eqb orb]; lia|].
+      destruct ((al =? 0) || sk); [lia|]. specialize (Hal sz ltac:(lia)). lia.
+    + rewrite array_size_cons in H by discriminate. destruct (esize e) as [sz| |] eqn:Hs; cbn [bind] in H; try discriminate.
+      destruct (array_size_with OP esize (e2 :: l) al sk) as [t| |] eqn:Ht; cbn [bind] in H; try discriminate.
+      injection H as <-. pose proof (HP e sz He Hs). pose proof (IH t Hl eq_refl).
+      destruct Hal as [->|[Hp Hal]]; [cbn [Z.eqb]; lia|]. replace (al =? 0) with false by lia. specialize (Hal sz ltac:(lia)). lia.
+Qed.
+
+Lemma member_size_nonneg self f a :
+  member_typed self f ->
+  bind (cond_self tm R allfs self f) (fun c => if c then member_size OP tm R self f else Ok 0) = Ok a ->
+  0 <= a /\ (pos_member f -> 0 < a).
+Proof.
+  intros Hty H. pose proof Hty as Hty'. unfold member_typed in Hty. unfold pos_member.
+  destruct (classify f) as [k|] eqn:Hk; [|contradiction].
+  pose proof (classify_facts f k Hk) as F.
+  assert (Hint : forall i, f_cond f = None -> f_type f = FInt i -> 0 <= it_size i -> a = it_size i).
+  { intros i Hc Hft Hw. rewrite (cond_self_none tm R allfs self f Hc) in H. cbn [bind] in H. unfold member_size in H. rewrite Hft in H. now injection H as <-. }
+  assert (Hnamed : forall t v, f_type f = FName t -> vget self (f_name f) = Some v -> v <> VNull -> adm_t t v -> member_size OP tm R self f = Ok a -> 0 < a).
+  { intros t v Hft Hv Hnn Hadm Hms. unfold member_size, member_value in Hms. rewrite Hft, Hv in Hms. cbn [bind] in Hms.
+    apply (sub_pos t v a Hadm). destruct v; try exact Hms. contradiction. }
+  destruct k; cbn [kind_facts] in F; cbn [int_of_kind].
+  - destruct F as (Hc & Hft & Hw & _). rewrite (Hint i Hc Hft Hw). lia.
+  - destruct F as (Hc & Hft & Hw & _). rewrite (Hint i Hc Hft Hw). lia.
+  - destruct F as (Hc & Hft & Hw & _). rewrite (Hint i Hc Hft Hw). lia.
+  - destruct F as (Hc & Hft & Hw & _). rewrite (Hint i Hc Hft Hw). lia.
+  - destruct F as (Hc & Hft & _). destruct Hty as (v & Hv & Hnn & Hadm). rewrite (cond_self_none tm R allfs self f Hc) in H. cbn [bind] in H.
+    pose proof (Hnamed t v Hft Hv Hnn Hadm H). split; [lia|trivial].
+  - destruct F as (Hc & _ & a0 & Hft & Has & Hba). destruct Hty as [b Hv]. rewrite (cond_self_none tm R allfs self f Hc) in H. cbn [bind] in H.
+    unfold member_size, member_value in H. rewrite Hft in H. cbv beta iota zeta in H. rewrite Hba, Has, Hv in H. cbn [bind] in H. injection H as <-. split; [lia|contradiction].
+  - destruct F as (Hc & _ & Hft & Has & Hba & Hvs & _). destruct Hty as (l & Hv & _ & Hel). rewrite (cond_self_none tm R allfs self f Hc) in H. cbn [bind] in H.
+    unfold member_size, member_value in H. rewrite Hft in H. cbv beta iota zeta in H. rewrite Hba, Hv in H. cbn [bind] in H. rewrite Hvs in H.
+    destruct (elem_name a0) as [et|] eqn:Het; [|contradiction]. split; [|contradiction].
+    apply (array_size_nonneg (elem_size R a0) (adm_t et) 0 false) with (l := l); [|now left|exact Hel|exact H].
+    intros e z He Hz. unfold elem_size in Hz. rewrite Het in Hz. exact (sub_pos et e z He Hz).
+  - destruct F as (Hc & Hft & Hw & _). rewrite (Hint i Hc Hft Hw). lia.
+  - destruct F as (Hc & Hft & _). destruct Hty as (v & Hv & Hnn & Hadm). rewrite (cond_self_none tm R allfs self f Hc) in H. cbn [bind] in H.
+    pose proof (Hnamed t v Hft Hv Hnn Hadm H). split; [lia|trivial].
+  - destruct F as (_ & Hc & Hft & _ & _ & _ & Hw & _). rewrite (Hint i Hc Hft Hw). lia.
+  - destruct Hty as (v & Hv & Hos). rewrite (cond_named_self self f t cfn v Hk Hv Hos) in H. destruct F as (Hft & _).
+    split; [|contradiction]. destruct Hos as [->|[Hvs Hadm]]; [cbn [bind] in H; injection H as <-; lia|].
+    destruct v; try discriminate. destruct (size_t R t (VStruct cls fs)) as [sz| |]; cbn [bind] in H; try discriminate.
+    pose proof (Hnamed t _ Hft Hv ltac:(discriminate) Hadm H). lia.
+  - destruct F as (_ & c & cf & a0 & j & Hc & _ & _ & _ & _ & _ & Hft & Has & Hba). split; [|contradiction].
+    unfold cond_self in H. rewrite Hc, Hft in H.
+    destruct Hty as [Hv|(b & Hv & _)]; rewrite Hv in H; cbn [truthy bind] in H; [injection H as <-; lia|].
+    destruct b; cbn [negb] in H; [injection H as <-; lia|].
+    unfold member_size, member_value in H. rewrite Hft in H. cbv beta iota zeta in H. rewrite Hba, Has, Hv in H. cbn [bind] in H. injection H as <-. lia.
+Qed.
 
 (* ---- the member loops ---- *)
-Inductive ordered : list field -> list field -> Prop :=
-| ord_nil seen : ordered seen []
-| ord_cons seen f r :
-    (forall a n, classify f = Some (MkArray a n) -> size_member_seen seen f n) ->
-    (forall n, classify f = Some (MkBytes n) -> size_member_seen seen f n) ->
-    ordered (seen ++ [f]) r -> ordered seen (f :: r).
+Inductive ordered : list field -> list string -> list field -> Prop :=
+| ord_nil seen proc : ordered seen proc []
+| ord_cons seen proc f r : deps_ok seen proc f -> ordered (seen ++ [f]) (f_name f :: proc) r -> ordered seen proc (f :: r).
 
-Lemma member_typed_cond self f : member_typed self f -> f_cond f = None.
-Proof. unfold member_typed. destruct (classify f) eqn:Hk; [|contradiction]. intros _. eapply classify_cond; eassumption. Qed.
+Lemma des_loop_step f r proc e buf :
+  match f_cond f with Some c => existsb (String.eqb (c_link c)) proc = true | None => True end ->
+  des_loop (f :: r) proc [] [] e buf = bind (des_field e f buf) (fun x => des_loop r (f_name f :: proc) [] [] (fst x) (snd x)).
+Proof.
+  intros H. cbn [deserialize_loop]. destruct (f_cond f) as [c|]; [rewrite H|]; destruct (des_field e f buf) as [x| |]; reflexivity.
+Qed.
 
-Lemma loop_rt : forall fs seen e self total b rest processed,
+Lemma no_wait seen proc self f : member_typed self f -> deps_ok seen proc f ->
+  match f_cond f with Some c => existsb (String.eqb (c_link c)) proc = true | None => True end.
+Proof.
+  intros Hty Hdeps. unfold member_typed in Hty. destruct (classify f) as [k|] eqn:Hk; [|contradiction].
+  pose proof (classify_cond f k Hk) as Hc. pose proof (classify_facts f k Hk) as F. unfold deps_ok in Hdeps. rewrite Hk in Hdeps.
+  destruct k; try (rewrite Hc; exact I); cbn [kind_facts] in F.
+  - destruct F as (_ & _ & _ & _ & c & cf & i & d & Hfc & Hl & _). rewrite Hfc. destruct Hdeps as [_ Hin].
+    apply existsb_exists. exists cfn. split; [exact Hin | rewrite Hl; apply String.eqb_refl].
+  - destruct F as (_ & c & cf & a & j & Hfc & Hl & _). rewrite Hfc. destruct Hdeps as [_ Hin].
+    apply existsb_exists. exists n. split; [exact Hin | rewrite Hl; apply String.eqb_refl].
+Qed.
+
+Lemma loop_rt : forall fs seen proc e self total b rest,
   (forall f, In f fs -> not_size_member f) ->
-  ordered seen fs -> NoDup (map f_name (seen ++ fs)) ->
+  ordered seen proc fs -> NoDup (map f_name (seen ++ fs)) ->
   env_ok seen e self -> (forall f, In f fs -> member_typed self f) ->
   ser_fields total self false fs = Ok b ->
-  exists e', des_loop fs processed [] [] e (b ++ rest) = Ok (e', rest) /\ env_ok (seen ++ fs) e' self /\
+  exists e', des_loop fs proc [] [] e (b ++ rest) = Ok (e', rest) /\ env_ok (seen ++ fs) e' self /\
              (forall n, ~ In n (map f_name fs) -> eget e' n = eget e n).
 Proof.
-  induction fs as [|f r IH]; intros seen e self total b rest processed Hnsz Hord Hnd Henv Hty Hser.
+  induction fs as [|f r IH]; intros seen proc e self total b rest Hnsz Hord Hnd Henv Hty Hser.
   - cbn in Hser. injection Hser as <-. exists e. rewrite app_nil_r. split; [reflexivity | split; [exact Henv | reflexivity]].
   - rewrite ser_fields_cons in Hser.
     destruct (ser_field total self false f) as [bf| |] eqn:Hf; cbn [bind] in Hser; try discriminate.
     destruct (ser_fields total self false r) as [br| |] eqn:Hr; cbn [bind] in Hser; try discriminate.
-    injection Hser as <-. inversion Hord as [|? ? ? Ha Hb Hrest]; subst.
-    pose proof (Hty f (or_introl eq_refl)) as Htf. pose proof (member_typed_cond self f Htf) as Hcond.
-    destruct (member_step seen e self total f bf (br ++ rest) (Hnsz f (or_introl eq_refl)) Henv Htf Ha Hb Hf) as (v & Hload & Hv).
+    injection Hser as <-. inversion Hord as [|? ? ? ? Hdeps Hrest]; subst.
+    pose proof (Hty f (or_introl eq_refl)) as Htf.
+    destruct (member_step seen proc e self total f bf (br ++ rest) (Hnsz f (or_introl eq_refl)) Henv Htf Hdeps Hf) as (v & Hload & Hv).
     assert (Henv' : env_ok (seen ++ [f]) ((f_name f, v) :: e) self).
     { intros g Hg. apply in_app_or in Hg as [Hg|[<-|[]]].
       - rewrite eget_cons_neq; [now apply Henv|].
         rewrite map_app in Hnd. cbn [map] in Hnd. apply NoDup_remove_2 in Hnd. intros Heq. apply Hnd.
         apply in_or_app. left. rewrite Heq. now apply in_map.
       - rewrite eget_cons_eq. exact Hv. }
-    destruct (IH (seen ++ [f]) ((f_name f, v) :: e) self total br rest (f_name f :: processed) (fun g Hg => Hnsz g (or_intror Hg)) Hrest
+    destruct (IH (seen ++ [f]) (f_name f :: proc) ((f_name f, v) :: e) self total br rest (fun g Hg => Hnsz g (or_intror Hg)) Hrest
                ltac:(rewrite <- app_assoc; exact Hnd) Henv' (fun g Hg => Hty g (or_intror Hg)) Hr) as (e' & Hloop & Henv'' & Hkeep).
     exists e'. split; [|split; [rewrite <- app_assoc in Henv''; exact Henv''|]].
     2:{ intros n Hn. cbn [map] in Hn. rewrite Hkeep by (intros Hx; apply Hn; now right). apply eget_cons_neq. intros Heq. apply Hn. now left. }
-    cbn [deserialize_loop]. rewrite Hcond. unfold deserialize_field. rewrite (cond_local_none e f Hcond). cbn [bind].
-    rewrite <- app_assoc, Hload. cbn [bind fst snd find drain_queue]. exact Hloop.
+    rewrite (des_loop_step f r proc e _ (no_wait seen proc self f Htf Hdeps)).
+    rewrite <- app_assoc, Hload. cbn [bind fst snd]. exact Hloop.
 Qed.
 
 Lemma size_fields_ok : forall fs self total b,
@@ -335,7 +903,26 @@ Proof.
     rewrite app_length. f_equal. lia.
 Qed.
 
-(* the first member is only special for the @size member, which this fragment does not have *)
+Lemma size_fields_nonneg : forall fs self a,
+  (forall f, In f fs -> member_typed self f) -> size_fields OP tm R allfs self fs = Ok a ->
+  0 <= a /\ ((exists f, In f fs /\ pos_member f) -> 0 < a).
+Proof.
+  induction fs as [|f r IH]; intros self a Hty H.
+  - cbn in H. injection H as <-. split; [lia | intros (f & [] & _)].
+  - cbn [size_fields] in H.
+    destruct (bind (cond_self tm R allfs self f) (fun c => if c then member_size OP tm R self f else Ok 0)) as [x| |] eqn:Hx.
+    2,3: destruct (cond_self tm R allfs self f) as [c| |]; cbn [bind] in Hx, H; try discriminate;
+         destruct (if c then member_size OP tm R self f else Ok 0); cbn [bind] in Hx, H; discriminate.
+    assert (H' : bind (size_fields OP tm R allfs self r) (fun b => Ok (x + b)) = Ok a).
+    { destruct (cond_self tm R allfs self f) as [c| |]; cbn [bind] in Hx, H; try discriminate.
+      destruct (if c then member_size OP tm R self f else Ok 0); cbn [bind] in Hx, H; try discriminate. now injection Hx as <-. }
+    destruct (size_fields OP tm R allfs self r) as [y| |] eqn:Hy; cbn [bind] in H'; try discriminate. injection H' as <-.
+    destruct (member_size_nonneg self f x (Hty f (or_introl eq_refl)) Hx) as [Hx0 Hxp].
+    destruct (IH self y (fun g Hg => Hty g (or_intror Hg)) Hy) as [Hy0 Hyp].
+    split; [lia|]. intros (g & [<-|Hg] & Hp); [specialize (Hxp Hp); lia|]. specialize (Hyp (ex_intro _ g (conj Hg Hp))). lia.
+Qed.
+
+(* the first member is only special for the @size member *)
 Lemma ser_fields_first total self fs : (forall f, In f fs -> not_size_member f) -> ser_fields total self true fs = ser_fields total self false fs.
 Proof.
   intros Hn. destruct fs as [|f r]; [reflexivity|]. rewrite !ser_fields_cons. f_equal.
@@ -344,64 +931,27 @@ Proof.
   rewrite String.eqb_refl. cbn [andb]. rewrite String.eqb_sym, Hn. reflexivity.
 Qed.
 
+(* settable members: the decoder's environment holds the member value itself *)
+Lemma settable_env_entry self f : is_settable allfs f = true -> member_typed self f ->
+  env_entry self f = vget self (f_name f) /\ exists v, vget self (f_name f) = Some v.
+Proof.
+  intros Hs Hty. unfold is_settable in Hs. apply Bool.andb_true_iff in Hs as [Hs Hb]. apply Bool.andb_true_iff in Hs as [Hs Hcomp].
+  apply Bool.andb_true_iff in Hs as [_ Hr]. apply Bool.negb_true_iff in Hr, Hcomp.
+  unfold member_typed in Hty. unfold env_entry. destruct (classify f) as [k|] eqn:Hk; [|contradiction].
+  pose proof (classify_facts f k Hk) as F.
+  destruct k; cbn [kind_facts] in F.
+  - split; [reflexivity|]. destruct Hty as [z Hz]. eauto.
+  - destruct F as (_ & _ & _ & Hres & _). congruence.
+  - destruct F as (_ & _ & _ & _ & Hbf & _). rewrite Hbf in Hb. discriminate.
+  - destruct F as (_ & _ & _ & _ & Hbf & _). rewrite Hbf in Hb. discriminate.
+  - split; [reflexivity|]. destruct Hty as (v & Hv & _). eauto.
+  - split; [reflexivity|]. destruct Hty as (v & Hv). eauto.
+  - split; [reflexivity|]. destruct Hty as (v & Hv & _). eauto.
+  - destruct F as (_ & _ & _ & _ & _ & g & Hbf & _). rewrite Hbf in Hb. discriminate.
+  - split; [reflexivity|]. destruct Hty as (v & Hv & _). eauto.
+  - destruct F as (Hc & _). congruence.
+  - split; [reflexivity|]. destruct Hty as (v & Hv & _). eauto.
+  - split; [reflexivity|]. destruct Hty as [Hv|(b & Hv & _)]; eauto.
+Qed.
+
 End StructRT.
-
-(* inversion of the classification for the two fixed-width integer kinds *)
-Lemma classify_plain_int tm allfs f i : classify tm allfs f = Some (MkInt i) -> plain_member allfs f /\ f_type f = FInt i.
-Proof.
-  unfold classify, plain_member. destruct (f_cond f); [discriminate|]. destruct (is_sizeof f); [discriminate|]. destruct (is_computed f); [discriminate|].
-  destruct (f_type f) as [j|t|a]; try discriminate.
-  - destruct (it_size j <? 0); [discriminate|]. destruct (is_reserved f).
-    + destruct (f_value f); try discriminate. destruct (bound_field allfs f); discriminate.
-    + destruct (bound_field allfs f) as [g|].
-      * destruct (f_array g); [|discriminate]. destruct (f_cond g); [discriminate|]. destruct (_ && _); discriminate.
-      * intros H; injection H as ->. repeat split; reflexivity.
-  - destruct (_ && _); [|discriminate]. destruct (bound_field allfs f); [discriminate|]. destruct (size_fields_of allfs f); discriminate.
-  - destruct (bound_field allfs f); [discriminate|]. destruct (a_size a); try discriminate. destruct (is_byte_array a); [discriminate|]. destruct (_ && _); discriminate.
-Qed.
-
-Lemma classify_reserved tm allfs f i n : classify tm allfs f = Some (MkReserved i n) ->
-  f_cond f = None /\ bound_field allfs f = None /\ is_computed f = false /\ is_reserved f = true /\ f_type f = FInt i /\ f_value f = VNum n.
-Proof.
-  unfold classify. destruct (f_cond f); [discriminate|]. destruct (is_sizeof f); [discriminate|]. destruct (is_computed f); [discriminate|].
-  destruct (f_type f) as [j|t|a]; try discriminate.
-  - destruct (it_size j <? 0); [discriminate|]. destruct (is_reserved f).
-    + destruct (f_value f); try discriminate. destruct (bound_field allfs f); [discriminate|]. intros H; injection H as -> ->. repeat split; reflexivity.
-    + destruct (bound_field allfs f) as [g|]; [|discriminate].
-      destruct (f_array g); [|discriminate]. destruct (f_cond g); [discriminate|]. destruct (_ && _); discriminate.
-  - destruct (_ && _); [|discriminate]. destruct (bound_field allfs f); [discriminate|]. destruct (size_fields_of allfs f); discriminate.
-  - destruct (bound_field allfs f); [discriminate|]. destruct (a_size a); try discriminate. destruct (is_byte_array a); [discriminate|]. destruct (_ && _); discriminate.
-Qed.
-
-Lemma classify_named tm allfs f t : classify tm allfs f = Some (MkNamed t) ->
-  f_cond f = None /\ bound_field allfs f = None /\ is_reserved f = false /\ f_type f = FName t.
-Proof.
-  unfold classify. destruct (f_cond f); [discriminate|]. destruct (is_sizeof f); [discriminate|]. destruct (is_computed f); [discriminate|].
-  destruct (f_type f) as [j|t'|a]; try discriminate.
-  - destruct (it_size j <? 0); [discriminate|]. destruct (is_reserved f).
-    + destruct (f_value f); try discriminate. destruct (bound_field allfs f); discriminate.
-    + destruct (bound_field allfs f) as [g|]; [|discriminate].
-      destruct (f_array g); [|discriminate]. destruct (f_cond g); [discriminate|]. destruct (_ && _); discriminate.
-  - destruct (negb (is_reserved f) && not_abstract tm t') eqn:Hn; [|discriminate].
-    destruct (bound_field allfs f); [discriminate|]. destruct (size_fields_of allfs f); [|discriminate]. intros H; injection H as ->.
-    apply Bool.andb_true_iff in Hn as [Hr _]. apply Bool.negb_true_iff in Hr. repeat split; assumption.
-  - destruct (bound_field allfs f); [discriminate|]. destruct (a_size a); try discriminate. destruct (is_byte_array a); [discriminate|]. destruct (_ && _); discriminate.
-Qed.
-
-Definition int_kind (k : mkind) : option intty :=
-  match k with MkInt i | MkReserved i _ | MkCount i _ => Some i | _ => None end.
-
-Lemma classify_int_kind tm allfs f k i : classify tm allfs f = Some k -> int_kind k = Some i -> f_type f = FInt i /\ f_cond f = None.
-Proof.
-  intros Hk Hi. pose proof (classify_cond tm allfs f k Hk) as Hc. split; [|exact Hc].
-  unfold classify in Hk. rewrite Hc in Hk. destruct (is_sizeof f); [discriminate|]. destruct (is_computed f); [discriminate|].
-  destruct (f_type f) as [j|t|a].
-  - destruct (it_size j <? 0); [discriminate|]. destruct (is_reserved f).
-    + destruct (f_value f); try discriminate. destruct (bound_field allfs f); [discriminate|]. injection Hk as <-. cbn in Hi. congruence.
-    + destruct (bound_field allfs f) as [g|].
-      * destruct (f_array g); [|discriminate]. destruct (f_cond g); [discriminate|]. destruct (_ && _); [|discriminate]. injection Hk as <-. cbn in Hi. congruence.
-      * injection Hk as <-. cbn in Hi. congruence.
-  - destruct (_ && _); [|discriminate]. destruct (bound_field allfs f); [discriminate|]. destruct (size_fields_of allfs f); [|discriminate]. injection Hk as <-. discriminate.
-  - destruct (bound_field allfs f); [discriminate|]. destruct (a_size a); try discriminate. destruct (is_byte_array a); [injection Hk as <-; discriminate|].
-    destruct (_ && _); [|discriminate]. injection Hk as <-. discriminate.
-Qed.
